@@ -1,70 +1,19 @@
-(* TparseTree.v -- the offset discipline of the parsed tree (TparseModel.tree_ok):
-   basic facts about [wf_tags] and the proof that the parser establishes it for
-   every text in which the Finder reports no "{svar:" and no "{if" token
-   ([tree_ok_no_inline]).  For texts with super variables / inline ifs the
-   property is checked by the correspondence run (tree_okb on every generated
-   text), not proved here. *)
+(* TparseTree.v -- C01: the tree the parser model returns obeys the offset discipline the renderer relies on
+   (TparseModel.tree_ok), for EVERY text ([tree_ok_all]).
+
+   The invariant [J] of the main loop has two modes.
+   alive: every array on the parent_storage stack is well formed up to its open last tag, the current array is
+     well formed up to the start of the pending token, and the number of stack arrays whose last tag is a super
+     variable / inline if is exactly 1 when is_child is set and 0 otherwise.
+   dead: that number exceeds is_child.  This happens when a '}' pops the array of an unclosed <loop> / <if> (the
+     unclosed tag then sits, never to be completed, in the current array) or leaves a super variable / inline if
+     open below a closed one.  From then on the bottom-most such array is never popped again (popping it needs
+     is_child with no other such array above), so the final clean-up drops everything above and including its
+     last tag; the invariant keeps only the arrays from it downwards well formed. *)
 From Coq Require Import NArith ZArith List Bool Arith Lia ZifyBool ZifyNat ZifyN.
-From Qv Require Import gen.Tables_tmpl gen.Tables_expr gen.Tables_tparse FinderModel FinderProofs TparseModel TparseFinder TparseProofs TparseSafety.
+From Qv Require Import gen.Tables_tmpl gen.Tables_expr gen.Tables_tparse FinderModel FinderProofs TparseModel TparseFinder TparseProofs TparseSafety TparseIif.
 Import ListNotations.
 Ltac Zify.zify_post_hook ::= Z.div_mod_to_equations.
-
-Lemma wf_tag_le : forall t, wf_tag t -> tstart t <= tend t.
-Proof.
-  intros t H. destruct t as [v|v|o e ex|o e v sb|i c sb|l sb|o e cs]; cbn [wf_tag tstart tend] in *;
-    unfold tpp_VariablePrefixLength, tpp_InLineSuffixLength, tpp_LoopSuffixLength in *; try lia;
-    destruct H as [H _]; lia.
-Qed.
-
-Lemma wf_tags_le : forall l lo hi, wf_tags lo hi l -> lo <= hi.
-Proof.
-  intros l; induction l as [|x r IH]; intros lo hi H; [exact H|].
-  cbn [wf_tags] in H. destruct H as (H1 & H2 & H3). apply wf_tag_le in H2. apply IH in H3. lia.
-Qed.
-
-Lemma wf_tags_mono : forall l lo hi hi', wf_tags lo hi l -> hi <= hi' -> wf_tags lo hi' l.
-Proof.
-  intros l; induction l as [|x r IH]; intros lo hi hi' H Hh; cbn [wf_tags] in *; [lia|].
-  destruct H as (H1 & H2 & H3). split; [exact H1|split; [exact H2|eapply IH; eassumption]].
-Qed.
-
-Lemma wf_tags_lo : forall l lo lo' hi, wf_tags lo hi l -> lo' <= lo -> wf_tags lo' hi l.
-Proof.
-  intros l lo lo' hi H Hl. destruct l as [|x r]; cbn [wf_tags] in *; [lia|].
-  destruct H as (H1 & H2 & H3). split; [lia|split; assumption].
-Qed.
-
-Lemma wf_tags_snoc : forall l lo t hi, wf_tags lo (tstart t) l -> wf_tag t -> tend t <= hi -> wf_tags lo hi (l ++ [t]).
-Proof.
-  intros l; induction l as [|x r IH]; intros lo t hi H Ht He; cbn [wf_tags app] in *.
-  - split; [exact H|split; [exact Ht|exact He]].
-  - destruct H as (H1 & H2 & H3). split; [exact H1|split; [exact H2|apply IH; assumption]].
-Qed.
-
-Lemma wf_cases_snoc : forall cs e' lo co ce cc sb,
-  wf_cases co lo cs -> wf_tags co ce sb -> ce <= e' -> wf_cases e' lo (cs ++ [PCase co ce cc sb]).
-Proof.
-  intros cs; induction cs as [|[co0 ce0 cc0 sb0] r IH]; intros e' lo co ce cc sb H Hs He; cbn [wf_cases app] in *.
-  - split; [exact H|split; [exact Hs|exact He]].
-  - destruct H as (H1 & H2 & H3). split; [exact H1|split; [exact H2|eapply IH; eassumption]].
-Qed.
-
-Lemma wf_cases_le : forall cs e lo, wf_cases e lo cs -> lo <= e.
-Proof.
-  intros cs; induction cs as [|[co ce cc sb] r IH]; intros e lo H; cbn [wf_cases] in H; [exact H|].
-  destruct H as (H1 & H2 & H3). apply wf_tags_le in H2. apply IH in H3. lia.
-Qed.
-
-(* the nested fixpoints inside wf_tag are wf_tags / wf_cases *)
-Lemma wf_tag_loop : forall l sb, wf_tag (PLoop l sb) <->
-  l_off l + N.to_nat (l_coff l) <= l_end l /\ wf_tags (l_off l + N.to_nat (l_coff l)) (l_end l) sb.
-Proof. intros l sb. reflexivity. Qed.
-Lemma wf_tag_if : forall o e cs, o <= e -> wf_cases e o cs -> wf_tag (PIf o e cs).
-Proof.
-  intros o e cs H1 H2. cbn [wf_tag]. split; [exact H1|]. clear H1. revert o H2.
-  induction cs as [|[co ce cc sb] r IH]; intros lo H2; [exact H2|].
-  cbn [wf_cases] in H2. destruct H2 as (A & B & C). split; [exact A|split; [exact B|]]. apply (IH ce C).
-Qed.
 
 (* ---- inversion helpers (equation form) ---- *)
 Lemma csub_ok : forall site a b d, csub site a b = Ok d -> d = a - b /\ b <= a.
@@ -73,82 +22,341 @@ Proof. intros site a b d H. unfold csub in H. destruct (Nat.leb_spec b a); [inje
 Lemma bind_ok : forall A B (x : res A) (f : A -> res B) r, bind x f = Ok r -> exists a, x = Ok a /\ f a = Ok r.
 Proof. intros A B [a|e] f r H; [exists a; split; [reflexivity|exact H]|discriminate H]. Qed.
 
-Lemma check_loop_variable_same : forall content chain v v',
-  check_loop_variable content v chain = Ok v' -> v_off v' = v_off v /\ v_len v' = v_len v.
+Lemma t16_le : forall x, N.to_nat (t16 x) <= x.
+Proof. intros x. unfold t16. lia. Qed.
+Lemma t16_exact : forall x, (N.of_nat x <= 65535)%N -> N.to_nat (t16 x) = x.
+Proof. intros x H. unfold t16. lia. Qed.
+Lemma t8_exact : forall x, x <= 255 -> N.to_nat (t8 x) = x.
+Proof. intros x H. unfold t8. lia. Qed.
+Lemma t16_nz : forall x, 1 <= x -> (N.of_nat x <= 65535)%N -> t16 x <> 0%N.
+Proof. intros x H1 H2. unfold t16. lia. Qed.
+
+(* checkLoopVariable keeps Offset / Length and takes IDLength / Level from a loop of the chain *)
+Lemma clv_same : forall content chain v v',
+  check_loop_variable content v chain = Ok v' ->
+  v_off v' = v_off v /\ v_len v' = v_len v /\
+  forall L : list N, (forall li, In li chain -> In (li_level li) L) -> (v_idlen v <> 0%N -> In (v_level v) L) ->
+                     (v_idlen v' <> 0%N -> In (v_level v') L).
 Proof.
   intros content chain; induction chain as [|l r IH]; intros v v' H; cbn [check_loop_variable] in H.
-  - injection H as <-. auto.
-  - destruct (N.eqb (li_vlen l) 0); [apply IH; exact H|].
-    apply bind_ok in H. destruct H as (b & _ & H). destruct b; [injection H as <-; cbn; auto|apply IH; exact H].
+  - injection H as <-. repeat split; auto.
+  - assert (Hr : check_loop_variable content v r = Ok v' -> v_off v' = v_off v /\ v_len v' = v_len v /\
+      forall L : list N, (forall li, In li (l :: r) -> In (li_level li) L) -> (v_idlen v <> 0%N -> In (v_level v) L) ->
+                         (v_idlen v' <> 0%N -> In (v_level v') L)).
+    { intros H'. destruct (IH _ _ H') as (A & B & C). split; [exact A|split; [exact B|]].
+      intros L HL. apply C. intros li Hli. apply HL. right. exact Hli. }
+    destruct (N.eqb (li_vlen l) 0); [apply Hr; exact H|].
+    apply bind_ok in H. destruct H as (b & _ & H). destruct b; [|apply Hr; exact H].
+    injection H as <-. cbn [v_off v_len v_idlen v_level]. split; [reflexivity|split; [reflexivity|]].
+    intros L HL _ _. apply HL. left. reflexivity.
 Qed.
 
-Lemma set_attr_same : forall content l att ao o l', set_attr content l att ao o = Ok l' -> lsame l l'.
+Definition lsame_more (l l' : looprec) : Prop :=
+  l_off l' = l_off l /\ l_end l' = l_end l /\ l_coff l' = l_coff l /\ l_level l' = l_level l /\ l_parent l' = l_parent l.
+
+(* what the attribute scan of a loop head keeps / establishes; e = position of '>' *)
+Definition lattr_ok (e : nat) (L : list N) (l : looprec) : Prop :=
+  v_off (l_set l) + N.to_nat (v_len (l_set l)) <= e /\ (v_idlen (l_set l) <> 0%N -> In (v_level (l_set l)) L) /\
+  N.to_nat (l_goff l) + N.to_nat (l_glen l) <= e - l_off l.
+
+Lemma set_attr_tree : forall content L l att ao o e l',
+  set_attr content l att ao o = Ok l' -> ao <= o -> o <= e ->
+  (forall li, In li (l_parent l) -> In (li_level li) L) -> lattr_ok e L l ->
+  lsame l l' /\ lattr_ok e L l'.
 Proof.
-  intros content l att ao o l' H. unfold set_attr in H.
-  destruct att as [|[[|[]|]|[[]|[]|]|]]; try (injection H as <-; apply lsame_refl);
-    repeat (apply bind_ok in H; destruct H as (? & _ & H)); injection H as <-; unfold lsame; cbn; auto.
+  intros content L l att ao o e l' H Hao Hoe HL (A1 & A2 & A3). unfold set_attr in H.
+  destruct att as [|[[|[]|]|[[]|[]|]|]]; try (injection H as <-; split; [apply lsame_refl|repeat split; assumption]).
+  - apply bind_ok in H. destruct H as (ch & _ & H). injection H as <-. split; [unfold lsame; cbn; auto|repeat split; assumption].
+  - apply bind_ok in H. destruct H as (d1 & Hd1 & H). apply csub_ok in Hd1. destruct Hd1 as [-> Hle1].
+    apply bind_ok in H. destruct H as (d2 & Hd2 & H). apply csub_ok in Hd2. destruct Hd2 as [-> Hle2]. injection H as <-.
+    split; [unfold lsame; cbn; auto|]. unfold lattr_ok. cbn [l_set l_goff l_glen l_off].
+    first [ split; [exact A1|split; [exact A2|exact A3]]
+          | split; [exact A1|split; [exact A2|]]; pose proof (t8_le (ao - l_off l)); pose proof (t8_le (o - ao)); lia ].
+  - apply bind_ok in H. destruct H as (d1 & Hd1 & H). apply csub_ok in Hd1. destruct Hd1 as [-> Hle1].
+    apply bind_ok in H. destruct H as (d2 & Hd2 & H). apply csub_ok in Hd2. destruct Hd2 as [-> Hle2]. injection H as <-.
+    split; [unfold lsame; cbn; auto|]. unfold lattr_ok. cbn [l_set l_goff l_glen l_off].
+    first [ split; [exact A1|split; [exact A2|exact A3]]
+          | split; [exact A1|split; [exact A2|]]; pose proof (t8_le (ao - l_off l)); pose proof (t8_le (o - ao)); lia ].
+  - apply bind_ok in H. destruct H as (d & Hd & H). apply csub_ok in Hd. destruct Hd as [-> Hle].
+    apply bind_ok in H. destruct H as (v & Hv & H). injection H as <-.
+    split; [unfold lsame; cbn; auto|]. unfold lattr_ok. cbn [l_set l_goff l_glen l_off].
+    destruct (clv_same _ _ _ _ Hv) as (E1 & E2 & E3). cbn [v_off v_len v_idlen v_level] in *.
+    split; [rewrite E1, E2; pose proof (t16_le (o - ao)); lia|split; [apply (E3 L HL A2)|exact A3]].
 Qed.
 
-Lemma loop_attrs_same : forall content fuel offset e att l l',
-  loop_attrs content fuel offset e att l = Ok l' -> lsame l l'.
+Lemma lattr_mono : forall e L l l', lsame l l' -> lattr_ok e L l' -> True.
+Proof. auto. Qed.
+
+Lemma loop_attrs_tree : forall content L fuel offset e att l l',
+  loop_attrs content fuel offset e att l = Ok l' -> e <= length content ->
+  (forall li, In li (l_parent l) -> In (li_level li) L) -> lattr_ok e L l ->
+  lsame l l' /\ lattr_ok e L l'.
 Proof.
-  intros content fuel; induction fuel as [|f IH]; intros offset e att l l' H; [discriminate H|].
+  intros content L fuel; induction fuel as [|f IH]; intros offset e att l l' H He HL Ha; [discriminate H|].
   cbn [loop_attrs] in H.
   apply bind_ok in H. destruct H as (o1 & _ & H).
   apply bind_ok in H. destruct H as (nm & _ & H).
   destruct nm as [[o2 att2]|].
   - apply bind_ok in H. destruct H as (o3 & _ & H).
     apply bind_ok in H. destruct H as (o4 & _ & H).
-    destruct (o4 <? e); [|injection H as <-; apply lsame_refl].
+    destruct (Nat.ltb_spec o4 e) as [Hlt|Hge]; [|injection H as <-; split; [apply lsame_refl|exact Ha]].
     apply bind_ok in H. destruct H as (q & _ & H).
-    apply bind_ok in H. destruct H as (o5 & _ & H).
+    apply bind_ok in H. destruct H as (o5 & Ho5 & H).
+    pose proof (skip_ne_do_good content 55 q o4 e He) as G. rewrite Ho5 in G. cbn [good] in G.
     apply bind_ok in H. destruct H as (l1 & H1 & H).
-    apply set_attr_same in H1.
-    destruct (S o5 <? e); [|injection H as <-; exact H1].
-    eapply lsame_trans; [exact H1|eapply IH; exact H].
-  - destruct (S o1 <? e); [eapply IH; exact H|injection H as <-; apply lsame_refl].
+    destruct (set_attr_tree _ L _ _ _ _ e _ H1) as [S1 S2]; [lia|lia|exact HL|exact Ha|].
+    destruct (Nat.ltb_spec (S o5) e); [|injection H as <-; split; assumption].
+    destruct S1 as (E1 & E2 & E3 & E4 & E5).
+    destruct (IH _ _ _ _ _ H He) as [T1 T2]; [rewrite E5; exact HL|exact S2|].
+    split; [eapply lsame_trans; [|exact T1]; unfold lsame; auto|exact T2].
+  - destruct (S o1 <? e); [eapply IH; eassumption|injection H as <-; split; [apply lsame_refl|exact Ha]].
 Qed.
 
-Lemma t16_le : forall x, N.to_nat (t16 x) <= x.
-Proof. intros x. unfold t16. lia. Qed.
+(* ---- the attribute scan of an inline if: the slices it sets ---- *)
+Definition sinv (o : nat) (i : iifrec) : Prop :=
+  let ts := i_off i + N.to_nat (i_toff i) in let te := ts + N.to_nat (i_tlen i) in
+  let fs := i_off i + N.to_nat (i_foff i) in let fe := fs + N.to_nat (i_flen i) in
+  (i_toff i = 0%N /\ i_tlen i = 0%N \/ te < o) /\ (i_foff i = 0%N /\ i_flen i = 0%N \/ fe < o) /\
+  (i_toff i <> 0%N -> i_foff i <> 0%N -> te < fs \/ fe < ts).
+
+Lemma sinv_mono : forall o o' i, sinv o i -> o <= o' -> sinv o' i.
+Proof. unfold sinv. intros o o' i (A & B & C) H. split; [|split; [|exact C]]; [destruct A as [A|A]|destruct B as [B|B]]; auto; right; lia. Qed.
+
+Lemma set_iif_value_tree : forall i it ao o e i',
+  set_iif_value i it ao o = Ok i' -> i_off i < ao -> ao <= o -> o < e -> (N.of_nat (e - i_off i) <= 65535)%N ->
+  sinv ao i -> sinv (S o) i' /\ i_off i' = i_off i /\ i_len i' = i_len i /\ i_tid i' = i_tid i /\ i_fid i' = i_fid i.
+Proof.
+  intros i it ao o e i' H H1 H2 H3 H4 (A & B & C). unfold set_iif_value in H.
+  apply bind_ok in H. destruct H as (d1 & Hd1 & H). apply csub_ok in Hd1. destruct Hd1 as [-> _].
+  apply bind_ok in H. destruct H as (d2 & Hd2 & H). apply csub_ok in Hd2. destruct Hd2 as [-> _].
+  assert (X1 : N.to_nat (t16 (ao - i_off i)) = ao - i_off i) by (apply t16_exact; lia).
+  assert (X2 : N.to_nat (t16 (o - ao)) = o - ao) by (apply t16_exact; lia).
+  assert (X3 : t16 (ao - i_off i) <> 0%N) by (apply t16_nz; lia).
+  destruct it; injection H as <-; (split; [|cbn; auto]); unfold sinv; cbn [i_off i_toff i_tlen i_foff i_flen]; rewrite X1, X2.
+  - split; [right; lia|split; [destruct B as [B|B]; [left; exact B|right; lia]|]].
+    intros _ Hf. right. destruct B as [[B _]|B]; [contradiction|lia].
+  - split; [destruct A as [A|A]; [left; exact A|right; lia]|split; [right; lia|]].
+    intros Ht _. left. destruct A as [[A _]|A]; [contradiction|lia].
+Qed.
+
+Lemma iif_attrs_slices : forall content fuel offset e it toff i r,
+  iif_attrs content fuel offset e it toff i = Ok (r, false) ->
+  e <= length content -> i_off i <= offset -> offset <= e -> (N.of_nat (e - i_off i) <= 65535)%N -> sinv offset i ->
+  slices_ok e r /\ i_off r = i_off i /\ i_len r = i_len i /\ i_tid r = i_tid i /\ i_fid r = i_fid i.
+Proof.
+  intros content fuel; induction fuel as [|f IH]; intros offset e it toff i r H He Hi Hoe H16 Hs; [discriminate H|].
+  assert (Hdone : slices_ok e i /\ i_off i = i_off i /\ i_len i = i_len i /\ i_tid i = i_tid i /\ i_fid i = i_fid i).
+  { split; [|auto]. destruct Hs as (A & B & C). unfold slices_ok. split; [|split; [|exact C]].
+    - destruct A as [A|A]; [left; exact A|right; lia].
+    - destruct B as [B|B]; [left; exact B|right; lia]. }
+  cbn [iif_attrs] in H.
+  apply bind_ok in H. destruct H as (o1 & Ho1 & H).
+  pose proof (skip_eq_good content 65 tpp_SpaceChar offset e He) as G1. rewrite Ho1 in G1. cbn [good] in G1.
+  destruct (Nat.ltb_spec o1 e) as [Hlt1|Hge1]; [|injection H as <-; exact Hdone].
+  apply bind_ok in H. destruct H as (nm & Hnm & H).
+  pose proof (iif_attr_name_good content o1 e it Hlt1 He) as G2. rewrite Hnm in G2. cbn [good] in G2.
+  destruct nm as [[o2 it2]|]; [|injection H as <-; exact Hdone].
+  apply bind_ok in H. destruct H as (o3 & Ho3 & H).
+  pose proof (skip_ne_good content 66 tpp_EqualChar o2 e He) as G3. rewrite Ho3 in G3. cbn [good] in G3.
+  apply bind_ok in H. destruct H as (o4 & Ho4 & H).
+  pose proof (skip_eq_do_good content 67 tpp_SpaceChar o3 e He) as G4. rewrite Ho4 in G4. cbn [good] in G4.
+  destruct (Nat.ltb_spec o4 e) as [Hlt4|Hge4].
+  - apply bind_ok in H. destruct H as (q & _ & H).
+    apply bind_ok in H. destruct H as (o5 & Ho5 & H).
+    pose proof (skip_ne_good content 69 q (S o4) e He) as G5. rewrite Ho5 in G5. cbn [good] in G5.
+    destruct (Nat.ltb_spec o5 e) as [Hlt5|Hge5]; [|discriminate H].
+    apply bind_ok in H. destruct H as (i' & Hi' & H).
+    destruct (set_iif_value_tree _ _ _ _ e _ Hi') as (S1 & E1 & E2 & E3 & E4); [lia|lia|lia|exact H16|eapply sinv_mono; [exact Hs|lia]|].
+    destruct (Nat.ltb_spec (S o5) e) as [Hlt6|Hge6].
+    + destruct (IH _ _ _ _ _ _ H He) as (R1 & R2 & R3 & R4 & R5); [rewrite E1; lia|lia|rewrite E1; exact H16|exact S1|].
+      split; [exact R1|repeat split; congruence].
+    + injection H as <-. split; [|repeat split; assumption].
+      destruct S1 as (A & B & C). unfold slices_ok. split; [|split; [|exact C]].
+      * destruct A as [A|A]; [left; exact A|right; lia].
+      * destruct B as [B|B]; [left; exact B|right; lia].
+  - destruct (Nat.ltb_spec (S o4) e); [lia|]. injection H as <-. exact Hdone.
+Qed.
+
+(* a re-opened inline if is back in the state it was created in *)
+Lemma iif_attrs_reopen : forall content fuel offset e it toff i r,
+  iif_attrs content fuel offset e it toff i = Ok (r, true) ->
+  i_off r = i_off i /\ i_toff r = toff /\ i_tlen r = 0%N /\ i_foff r = 0%N /\ i_flen r = 0%N.
+Proof.
+  intros content fuel; induction fuel as [|f IH]; intros offset e it toff i r H; [discriminate H|].
+  cbn [iif_attrs] in H.
+  apply bind_ok in H. destruct H as (o1 & _ & H).
+  destruct (o1 <? e); [|discriminate H].
+  apply bind_ok in H. destruct H as (nm & _ & H).
+  destruct nm as [[o2 it2]|]; [|discriminate H].
+  apply bind_ok in H. destruct H as (o3 & _ & H).
+  apply bind_ok in H. destruct H as (o4 & _ & H).
+  destruct (o4 <? e).
+  - apply bind_ok in H. destruct H as (q & _ & H).
+    apply bind_ok in H. destruct H as (o5 & _ & H).
+    destruct (o5 <? e).
+    + apply bind_ok in H. destruct H as (i' & Hi' & H).
+      assert (E : i_off i' = i_off i).
+      { unfold set_iif_value in Hi'. apply bind_ok in Hi'. destruct Hi' as (d1 & _ & Hi'). apply bind_ok in Hi'. destruct Hi' as (d2 & _ & Hi').
+        destruct it2; injection Hi' as <-; reflexivity. }
+      destruct (S o5 <? e); [|discriminate H]. destruct (IH _ _ _ _ _ _ H) as (A & B). split; [congruence|exact B].
+    + injection H as <-. cbn. auto.
+  - destruct (S o4 <? e); [apply (IH _ _ _ _ _ _ H)|discriminate H].
+Qed.
+
+(* ---- stack arrays whose last tag is a super variable / inline if ---- *)
+Definition is_sv (t : tag) : bool := match t with PSVar _ _ _ _ | PIIf _ _ _ => true | _ => false end.
+Definition is_lf (t : tag) : bool := match t with PLoop _ _ | PIf _ _ _ => true | _ => false end.
+Definition frame_sv (top : list tag) : nat :=
+  match split_last top with Some (_, t) => if is_sv t then 1 else 0 | None => 0 end.
+Fixpoint nsv (stack : list (list tag)) : nat :=
+  match stack with [] => 0 | top :: rest => frame_sv top + nsv rest end.
+Definition cnt (child : bool) : nat := if child then 1 else 0.
+Definition levels (stack : list (list tag)) : list N := map li_level (open_loops stack).
+
+Lemma split_last_snoc : forall A (l : list A) x, split_last (l ++ [x]) = Some (l, x).
+Proof. intros A l x; induction l as [|y l IH]; [reflexivity|]. cbn [app split_last]. rewrite IH. reflexivity. Qed.
+
+Lemma frame_sv_snoc : forall init t, frame_sv (init ++ [t]) = if is_sv t then 1 else 0.
+Proof. intros. unfold frame_sv. rewrite split_last_snoc. reflexivity. Qed.
+Lemma frame_sv_le : forall top, frame_sv top <= 1.
+Proof. intros top. unfold frame_sv. destruct (split_last top) as [[? t]|]; [destruct (is_sv t)|]; lia. Qed.
+Lemma nsv_app : forall a b, nsv (a ++ b) = nsv a + nsv b.
+Proof. intros a b; induction a as [|x a IH]; [reflexivity|]. cbn [app nsv]. rewrite IH. lia. Qed.
+
+Lemma levels_cons : forall init t rest,
+  levels ((init ++ [t]) :: rest) = match t with PLoop l _ => l_level l :: levels rest | _ => levels rest end.
+Proof.
+  intros init t rest. unfold levels. cbn [open_loops]. unfold frame_loop. rewrite split_last_snoc.
+  destruct t; reflexivity.
+Qed.
 
 Section Tree.
   Variable numf : list N -> N * N * nat.
   Variable w : N.
   Variable content : list N.
   Notation len := (length content).
-  (* the text holds no "{svar:" and no "{if" token: the Finder never reports them *)
-  Hypothesis Hns : forall o m o', next_w w content o = FOk m o' -> m <> 5%N /\ m <> 6%N.
 
   (* start of the pending token (the text length when there is none) *)
   Definition pos (fm : N) (fo : nat) : nat := if N.eqb fm 0 then len else fo - toklen fm.
 
   Definition child_lo (t : tag) : nat :=
     match t with
+    | PSVar o _ _ _ => o
+    | PIIf i _ _ => i_off i
     | PLoop l _ => l_off l + N.to_nat (l_coff l)
     | PIf o _ cases => match split_last cases with Some (_, PCase co _ _ _) => co | None => o end
     | _ => 0
     end.
-  Definition open_wf (t : tag) : Prop :=
+  (* the fields of an open tag that are already final *)
+  Definition open_wf (lv : list N) (t : tag) : Prop :=
     match t with
-    | PLoop _ _ => True
-    | PIf o _ cases => match split_last cases with Some (ci, PCase co _ _ _) => wf_cases co o ci | None => False end
+    | PSVar _ _ v _ => vt_ok len lv v
+    | PIIf i _ _ => i_tlen i = 0%N /\ i_foff i = 0%N /\ i_flen i = 0%N
+    | PLoop l _ => vt_ok len lv (l_set l) /\ l_off l + N.to_nat (l_goff l) + N.to_nat (l_glen l) <= len
+    | PIf o _ cases => match split_last cases with Some (ci, PCase co _ _ _) => wf_cases len lv co o ci | None => False end
     | _ => False
     end.
-  Fixpoint stack_ok (stack : list (list tag)) (lo_cur : nat) : Prop :=
+  Fixpoint frames_ok (stack : list (list tag)) (lo_cur : nat) : Prop :=
     match stack with
     | [] => lo_cur = 0
     | top :: rest =>
-      exists init t lo, top = init ++ [t] /\ lo_cur = child_lo t /\ open_wf t /\ tstart t <= child_lo t /\
-                        tstart t <= len /\ wf_tags lo (tstart t) init /\ stack_ok rest lo
+      exists init t lo, top = init ++ [t] /\ lo_cur = child_lo t /\ open_wf (levels rest) t /\ tstart t <= child_lo t /\
+                        tstart t <= len /\ wf_tags len (levels rest) lo (tstart t) init /\ frames_ok rest lo
     end.
   Definition cur_ok (fm : N) (fo : nat) (stack : list (list tag)) (lo : nat) (cur : list tag) : Prop :=
-    wf_tags lo (pos fm fo) cur \/
+    wf_tags len (levels stack) lo (pos fm fo) cur \/
     (cur = [] /\ (fm = 8%N \/ fm = 10%N) /\ exists init l sb rest, stack = (init ++ [PLoop l sb]) :: rest).
-  Definition J (st : pstate) : Prop :=
-    ps_child st = false /\ ps_fm st <> 5%N /\ ps_fm st <> 6%N /\
-    exists lo, stack_ok (ps_stack st) lo /\ lo <= ps_fo st /\ cur_ok (ps_fm st) (ps_fo st) (ps_stack st) lo (ps_cur st).
 
+  Definition alive (st : pstate) : Prop :=
+    nsv (ps_stack st) = cnt (ps_child st) /\
+    exists lo, frames_ok (ps_stack st) lo /\ lo <= ps_fo st /\ cur_ok (ps_fm st) (ps_fo st) (ps_stack st) lo (ps_cur st).
+  Definition dead (stack : list (list tag)) (child : bool) : Prop :=
+    cnt child < nsv stack /\
+    exists prefix F suffix lo, stack = prefix ++ F :: suffix /\ nsv suffix = 0 /\ frame_sv F = 1 /\ frames_ok (F :: suffix) lo.
+  Definition J (st : pstate) : Prop := alive st \/ dead (ps_stack st) (ps_child st).
+
+  (* ---- dead is absorbing: the shapes of a stack change ---- *)
+  Inductive shape (cur : list tag) (stack : list (list tag)) (child : bool) : list (list tag) -> bool -> Prop :=
+  | sh_same : shape cur stack child stack child
+  | sh_push_sv : forall t, is_sv t = true -> shape cur stack child ((cur ++ [t]) :: stack) true
+  | sh_push_lf : forall t, is_lf t = true -> shape cur stack child ((cur ++ [t]) :: stack) child
+  | sh_pop_le : forall top rest, stack = top :: rest -> child = true -> shape cur stack child rest false
+  | sh_repush : forall init t t' rest, stack = (init ++ [t]) :: rest -> child = true -> is_sv t = true -> is_sv t' = true ->
+                                       shape cur stack child ((init ++ [t']) :: rest) true
+  | sh_pop_lf : forall init t rest, stack = (init ++ [t]) :: rest -> is_lf t = true -> shape cur stack child rest child
+  | sh_swap : forall init t t' rest, stack = (init ++ [t]) :: rest -> is_lf t = true -> is_lf t' = true ->
+                                     shape cur stack child ((init ++ [t']) :: rest) child.
+
+  Lemma sv_lf : forall t, is_sv t = true -> is_lf t = true -> False.
+  Proof. intros t; destruct t; cbn; intros; discriminate. Qed.
+
+  Lemma dead_step : forall cur stack child stack' child',
+    dead stack child -> shape cur stack child stack' child' -> dead stack' child'.
+  Proof.
+    intros cur stack child stack' child' (Hc & prefix & F & suffix & lo & Es & Hs0 & HF & Hok) Hsh.
+    assert (Hn : nsv stack = nsv prefix + 1) by (rewrite Es, nsv_app; cbn [nsv]; lia).
+    (* when the bottom-most such array is on top, is_child is clear and no pop can take it *)
+    assert (Htop : prefix = [] -> child = false) by (intros ->; cbn in Hn; destruct child; [cbn in Hc; lia|reflexivity]).
+    inversion Hsh; subst.
+    - split; [exact Hc|]. exists prefix, F, suffix, lo. auto.
+    - split; [|exists ((cur ++ [t]) :: prefix), F, suffix, lo; auto].
+      change (nsv ((cur ++ [t]) :: prefix ++ F :: suffix)) with (frame_sv (cur ++ [t]) + nsv (prefix ++ F :: suffix)).
+      rewrite frame_sv_snoc, H. cbn [cnt]. lia.
+    - split; [|exists ((cur ++ [t]) :: prefix), F, suffix, lo; auto].
+      change (nsv ((cur ++ [t]) :: prefix ++ F :: suffix)) with (frame_sv (cur ++ [t]) + nsv (prefix ++ F :: suffix)). lia.
+    - destruct prefix as [|p prefix']; [specialize (Htop eq_refl); discriminate Htop|].
+      cbn [app] in H. injection H as E1 E2. subst.
+      split; [cbn [cnt]; rewrite nsv_app; cbn [nsv]; lia|]. exists prefix', F, suffix, lo. auto.
+    - destruct prefix as [|p prefix']; [specialize (Htop eq_refl); discriminate Htop|].
+      cbn [app] in H. injection H as E1 E2. subst.
+      split; [|exists ((init ++ [t']) :: prefix'), F, suffix, lo; auto].
+      change (nsv ((init ++ [t']) :: prefix' ++ F :: suffix)) with (frame_sv (init ++ [t']) + nsv (prefix' ++ F :: suffix)).
+      rewrite frame_sv_snoc, H2, nsv_app. cbn [nsv cnt]. lia.
+    - destruct prefix as [|p prefix'].
+      + cbn [app] in H. injection H as E1 E2. subst. rewrite frame_sv_snoc in HF.
+        destruct (is_sv t) eqn:E; [exfalso; eapply sv_lf; eassumption|discriminate HF].
+      + cbn [app] in H. injection H as E1 E2. subst.
+        assert (E0 : frame_sv (init ++ [t]) = 0).
+        { rewrite frame_sv_snoc. destruct (is_sv t) eqn:E; [exfalso; eapply sv_lf; eassumption|reflexivity]. }
+        split; [|exists prefix', F, suffix, lo; auto].
+        cbn [app nsv] in Hc. rewrite E0 in Hc. lia.
+    - destruct prefix as [|p prefix'].
+      + cbn [app] in H. injection H as E1 E2. subst. rewrite frame_sv_snoc in HF.
+        destruct (is_sv t) eqn:E; [exfalso; eapply sv_lf; eassumption|discriminate HF].
+      + cbn [app] in H. injection H as E1 E2. subst.
+        assert (E0 : frame_sv (init ++ [t]) = 0).
+        { rewrite frame_sv_snoc. destruct (is_sv t) eqn:E; [exfalso; eapply sv_lf; eassumption|reflexivity]. }
+        assert (E1 : frame_sv (init ++ [t']) = 0).
+        { rewrite frame_sv_snoc. destruct (is_sv t') eqn:E; [exfalso; eapply sv_lf; eassumption|reflexivity]. }
+        split; [|exists ((init ++ [t']) :: prefix'), F, suffix, lo; auto].
+        change (nsv ((init ++ [t']) :: prefix' ++ F :: suffix)) with (frame_sv (init ++ [t']) + nsv (prefix' ++ F :: suffix)).
+        cbn [app nsv] in Hc. rewrite E0 in Hc. rewrite E1. lia.
+  Qed.
+
+  (* an alive-shaped stack with too many such arrays is dead *)
+  Lemma frames_ok_app : forall a b lo, frames_ok (a ++ b) lo -> exists lo', frames_ok b lo'.
+  Proof.
+    intros a; induction a as [|x a IH]; intros b lo H; [exists lo; exact H|].
+    cbn [app frames_ok] in H. destruct H as (init & t & lo0 & _ & _ & _ & _ & _ & _ & H). apply (IH _ _ H).
+  Qed.
+
+  Lemma bottom_sv : forall stack, 1 <= nsv stack ->
+    exists prefix F suffix, stack = prefix ++ F :: suffix /\ nsv suffix = 0 /\ frame_sv F = 1.
+  Proof.
+    intros stack; induction stack as [|top rest IH]; intros H; [cbn in H; lia|].
+    cbn [nsv] in H. destruct (Nat.eq_dec (nsv rest) 0) as [E|E].
+    - exists [], top, rest. pose proof (frame_sv_le top). split; [reflexivity|split; [exact E|lia]].
+    - destruct IH as (p & F & s & E1 & E2 & E3); [lia|]. exists (top :: p), F, s. rewrite E1. auto.
+  Qed.
+
+  Lemma to_dead : forall stack child lo, frames_ok stack lo -> cnt child < nsv stack -> dead stack child.
+  Proof.
+    intros stack child lo Hok Hc. split; [exact Hc|].
+    destruct (bottom_sv stack) as (p & F & s & E1 & E2 & E3); [lia|].
+    rewrite E1 in Hok. destruct (frames_ok_app _ _ _ Hok) as [lo' Hok']. exists p, F, s, lo'. auto.
+  Qed.
+
+  (* ---- alive: generic steps ---- *)
   Lemma pos_le : forall fm fo, fm <> 0%N -> pos fm fo <= fo.
   Proof. intros fm fo H. unfold pos. destruct (N.eqb_spec fm 0); [contradiction|lia]. Qed.
 
@@ -158,135 +366,123 @@ Section Tree.
     destruct (stepok_nz _ _ _ Hs E) as (_ & H & _). lia.
   Qed.
 
-  Lemma fnext_facts : forall o mo, fnext w content o = Ok mo ->
-    stepok content o mo /\ onlybrace content o mo /\ fst mo <> 5%N /\ fst mo <> 6%N.
-  Proof.
-    intros o mo H. pose proof (fnext_good2 numf w content o) as G. rewrite H in G. destruct G as [G1 G2].
-    split; [exact G1|split; [exact G2|]].
-    unfold fnext in H. destruct (next_w w content o) as [m o'|] eqn:E; [|discriminate H].
-    injection H as <-. cbn. eapply Hns; exact E.
-  Qed.
+  Lemma fnext_step : forall o mo, fnext w content o = Ok mo -> stepok content o mo.
+  Proof. intros o mo H. pose proof (fnext_good numf w content o) as G. rewrite H in G. exact G. Qed.
 
   (* what every case establishes before its last Next(): tags end at or before [c] *)
-  Lemma J_after : forall stack cur chain lo c o mo,
-    stack_ok stack lo -> wf_tags lo c cur -> c <= o -> c <= len -> fnext w content o = Ok mo ->
-    J (mkS (snd mo) (fst mo) stack cur false chain).
+  Lemma J_settle : forall stack cur child chain lo c o mo,
+    frames_ok stack lo -> wf_tags len (levels stack) lo c cur -> c <= o -> c <= len -> stepok content o mo ->
+    cnt child <= nsv stack ->
+    J (mkS (snd mo) (fst mo) stack cur child chain).
   Proof.
-    intros stack cur chain lo c o mo Hst Hw Hc Hl Hf.
-    destruct (fnext_facts _ _ Hf) as (Hs & _ & H5 & H6).
-    unfold J. cbn [ps_child ps_fm ps_fo ps_stack ps_cur]. split; [reflexivity|split; [exact H5|split; [exact H6|]]].
-    exists lo. split; [exact Hst|]. pose proof (wf_tags_le _ _ _ Hw) as Hle. pose proof (stepok_le _ _ _ Hs) as Hle2.
-    split; [lia|]. left. eapply wf_tags_mono; [exact Hw|]. eapply pos_after; eassumption.
+    intros stack cur child chain lo c o mo Hst Hw Hc Hl Hs Hn.
+    destruct (Nat.eq_dec (nsv stack) (cnt child)) as [E|E].
+    - left. split; [exact E|]. cbn [ps_stack ps_fo ps_fm ps_cur]. exists lo. split; [exact Hst|].
+      pose proof (wf_tags_le _ _ _ _ _ Hw). pose proof (stepok_le _ _ _ Hs). split; [lia|].
+      left. eapply wf_tags_mono; [exact Hw|]. eapply pos_after; eassumption.
+    - right. cbn [ps_stack ps_child]. eapply to_dead; [exact Hst|lia].
   Qed.
 
-  (* whatever the state, the tags of the current array end at or before the cursor *)
-  Lemma cur_at_fo : forall fm fo stack lo cur, fm <> 0%N -> lo <= fo -> cur_ok fm fo stack lo cur -> wf_tags lo fo cur.
+  Lemma cur_at_fo : forall fm fo stack lo cur, fm <> 0%N -> lo <= fo -> cur_ok fm fo stack lo cur ->
+    wf_tags len (levels stack) lo fo cur.
   Proof.
     intros fm fo stack lo cur Hm Hlo [H|(E & _)].
     - eapply wf_tags_mono; [exact H|apply pos_le; exact Hm].
     - subst cur. exact Hlo.
   Qed.
 
-  Lemma stack_ok_top : forall init t rest lo,
-    stack_ok ((init ++ [t]) :: rest) lo ->
-    lo = child_lo t /\ open_wf t /\ tstart t <= child_lo t /\ exists lo0, wf_tags lo0 (tstart t) init /\ stack_ok rest lo0.
-  Proof.
-    intros init t rest lo (init' & t' & lo0 & E & H1 & H2 & H3 & _ & H4 & H5).
-    apply app_inj_tail in E. destruct E as [<- <-]. repeat split; try assumption. exists lo0. split; assumption.
-  Qed.
-
-  Lemma then_next_J : forall st1 st', then_next w content (Ok st1) = Ok st' ->
-    ps_child st1 = false ->
-    (exists lo c, stack_ok (ps_stack st1) lo /\ wf_tags lo c (ps_cur st1) /\ c <= ps_fo st1 /\ c <= len) -> J st'.
-  Proof.
-    intros st1 st' H Hc (lo & c & H1 & H2 & H3 & H4). unfold then_next in H. cbn [bind] in H.
-    apply bind_ok in H. destruct H as (mo & Hf & H). injection H as <-. unfold with_finder. rewrite Hc.
-    exact (J_after _ _ _ lo c (ps_fo st1) mo H1 H2 H3 H4 Hf).
-  Qed.
-
-  (* facts of a state with a pending match *)
-  Lemma J_parts : forall st, Inv content st -> J st -> ps_fm st <> 0%N ->
-    ps_fo st <= len /\ toklen (ps_fm st) <= ps_fo st /\ ps_child st = false /\
-    exists lo, stack_ok (ps_stack st) lo /\ lo <= ps_fo st /\ cur_ok (ps_fm st) (ps_fo st) (ps_stack st) lo (ps_cur st).
-  Proof.
-    intros st HI (Hc & _ & _ & lo & H1 & H2 & H3) Hm.
-    destruct (inv_parts numf content st HI Hm) as (Hfo & Htl & _).
-    split; [exact Hfo|split; [exact Htl|split; [exact Hc|]]]. exists lo. repeat split; assumption.
-  Qed.
-
   Lemma cur_ok_plain : forall fm fo stack lo cur, fm <> 8%N -> fm <> 10%N ->
-    cur_ok fm fo stack lo cur -> wf_tags lo (pos fm fo) cur.
+    cur_ok fm fo stack lo cur -> wf_tags len (levels stack) lo (pos fm fo) cur.
   Proof. intros fm fo stack lo cur H8 H10 [H|(_ & [E|E] & _)]; [exact H|contradiction|contradiction]. Qed.
+
+  (* the state a case hands to the final Next() *)
+  Definition restedJ (st1 : pstate) : Prop :=
+    dead (ps_stack st1) (ps_child st1) \/
+    (cnt (ps_child st1) <= nsv (ps_stack st1) /\
+     exists lo c, frames_ok (ps_stack st1) lo /\ wf_tags len (levels (ps_stack st1)) lo c (ps_cur st1) /\ c <= ps_fo st1 /\ c <= len).
+
+  Lemma then_next_J : forall st1 st', then_next w content (Ok st1) = Ok st' -> restedJ st1 -> J st'.
+  Proof.
+    intros st1 st' H HR. unfold then_next in H. cbn [bind] in H.
+    apply bind_ok in H. destruct H as (mo & Hf & H). injection H as <-. unfold with_finder.
+    destruct HR as [HD|(Hn & lo & c & H1 & H2 & H3 & H4)]; [right; exact HD|].
+    exact (J_settle _ _ _ _ lo c (ps_fo st1) mo H1 H2 H3 H4 (fnext_step _ _ Hf) Hn).
+  Qed.
+
+  Lemma alive_parts : forall st, Inv content st -> alive st -> ps_fm st <> 0%N ->
+    ps_fo st <= len /\ toklen (ps_fm st) <= ps_fo st /\ nsv (ps_stack st) = cnt (ps_child st) /\
+    exists lo, frames_ok (ps_stack st) lo /\ lo <= ps_fo st /\ cur_ok (ps_fm st) (ps_fo st) (ps_stack st) lo (ps_cur st).
+  Proof.
+    intros st HI (Hn & lo & H1 & H2 & H3) Hm.
+    destruct (inv_parts numf content st HI Hm) as (Hfo & Htl & _).
+    split; [exact Hfo|split; [exact Htl|split; [exact Hn|]]]. exists lo. repeat split; assumption.
+  Qed.
+
+  Lemma chain_levels : forall st, Inv content st -> forall li, In li (ps_chain st) -> In (li_level li) (levels (ps_stack st)).
+  Proof.
+    intros st HI li Hli. destruct (inv_chainok content st HI) as (E & _). unfold levels. rewrite <- E. apply in_map. exact Hli.
+  Qed.
+
+  Lemma rested_same : forall st, Inv content st -> J st -> ps_fm st <> 0%N -> restedJ st.
+  Proof.
+    intros st HI [HA|HD] Hm; [|left; exact HD].
+    destruct (alive_parts st HI HA Hm) as (Hfo & Htl & Hn & lo & Hst & Hlo & Hcur).
+    right. split; [lia|]. exists lo, (ps_fo st). split; [exact Hst|split; [eapply cur_at_fo; eassumption|lia]].
+  Qed.
 
   (* ---- {var: / {raw: ---- *)
   Lemma do_var_J : forall mk st st',
-    (forall v, tstart (mk v) = v_off v - tpp_VariablePrefixLength /\
+    (forall lv v, tstart (mk v) = v_off v - tpp_VariablePrefixLength /\
                tend (mk v) = v_off v + N.to_nat (v_len v) + tpp_InLineSuffixLength /\
-               (wf_tag (mk v) <-> tpp_VariablePrefixLength <= v_off v)) ->
+               (wf_tag len lv (mk v) <-> tpp_VariablePrefixLength <= v_off v /\ (v_idlen v <> 0%N -> In (v_level v) lv))) ->
     Inv content st -> J st -> toklen (ps_fm st) = 5 -> ps_fm st <> 8%N -> ps_fm st <> 10%N ->
     do_var w content mk st = Ok st' -> J st'.
   Proof.
     intros mk st st' Hmk HI HJ Hk H8 H10 H.
     assert (Hm : ps_fm st <> 0%N) by (intros E; rewrite E in Hk; discriminate Hk).
-    destruct (J_parts st HI HJ Hm) as (Hfo & Htl & Hc & lo & Hst & Hlo & Hcur).
+    unfold do_var in H.
+    apply bind_ok in H. destruct H as (mo & Hf & H). pose proof (fnext_step _ _ Hf) as Hs.
+    destruct HJ as [HA|HD].
+    2:{ right. destruct (N.eqb (fst mo) tpp_LineEndID).
+        - apply bind_ok in H. destruct H as (d & _ & H). apply bind_ok in H. destruct H as (d1 & _ & H).
+          apply bind_ok in H. destruct H as (cur' & _ & H). apply bind_ok in H. destruct H as (mo2 & _ & H). injection H as <-. exact HD.
+        - injection H as <-. exact HD. }
+    destruct (alive_parts st HI HA Hm) as (Hfo & Htl & Hn & lo & Hst & Hlo & Hcur).
     apply cur_ok_plain in Hcur; [|assumption|assumption].
     assert (Hpos : pos (ps_fm st) (ps_fo st) = ps_fo st - 5).
     { unfold pos. destruct (N.eqb_spec (ps_fm st) 0); [contradiction|]. rewrite Hk. reflexivity. }
-    unfold do_var in H.
-    apply bind_ok in H. destruct H as (mo & Hf & H).
-    destruct (fnext_facts _ _ Hf) as (Hs & _ & _ & _).
     destruct (N.eqb_spec (fst mo) tpp_LineEndID) as [E|E].
     - destruct (stepok_nz _ _ _ Hs) as (Hl & Hadv & _); [rewrite E; discriminate|]. rewrite E in Hadv. cbn in Hadv.
       apply bind_ok in H. destruct H as (d & Hd & H). apply csub_ok in Hd. destruct Hd as [-> _].
       apply bind_ok in H. destruct H as (d1 & Hd1 & H). apply csub_ok in Hd1. destruct Hd1 as [-> _].
       apply bind_ok in H. destruct H as (cur' & Hcur' & H).
       apply bind_ok in H. destruct H as (mo2 & Hf2 & H). injection H as <-.
-      unfold with_finder, with_cur. cbn [ps_stack ps_cur ps_child ps_chain]. rewrite Hc.
-      apply (J_after _ _ _ lo (snd mo) (snd mo) mo2 Hst); [|lia|exact Hl|exact Hf2].
+      unfold with_finder, with_cur. cbn [ps_stack ps_cur ps_child ps_chain].
+      apply (J_settle _ _ _ _ lo (snd mo) (snd mo) mo2 Hst); [|lia|exact Hl|exact (fnext_step _ _ Hf2)|lia].
       destruct (N.eqb (t8 (snd mo - ps_fo st - tpp_InLineSuffixLength)) 0).
       + injection Hcur' as <-. eapply wf_tags_mono; [exact Hcur|]. rewrite Hpos. lia.
       + apply bind_ok in Hcur'. destruct Hcur' as (v & Hv & Hcur'). injection Hcur' as <-.
-        apply check_loop_variable_same in Hv. cbn [v_off v_len] in Hv. destruct Hv as [Ev1 Ev2].
-        destruct (Hmk v) as (T1 & T2 & T3).
+        destruct (clv_same _ _ _ _ Hv) as (Ev1 & Ev2 & Ev3). cbn [v_off v_len v_idlen] in Ev1, Ev2, Ev3.
+        destruct (Hmk (levels (ps_stack st)) v) as (T1 & T2 & T3).
         apply wf_tags_snoc.
         * rewrite T1, Ev1. unfold tpp_VariablePrefixLength. rewrite <- Hpos. exact Hcur.
-        * apply T3. rewrite Ev1. unfold tpp_VariablePrefixLength. lia.
+        * apply T3. split; [rewrite Ev1; unfold tpp_VariablePrefixLength; lia|].
+          apply Ev3; [apply chain_levels; exact HI|intros X; contradiction X; reflexivity].
         * rewrite T2, Ev1, Ev2. pose proof (t8_le (snd mo - ps_fo st - tpp_InLineSuffixLength)).
           unfold tpp_InLineSuffixLength in *. lia.
-    - injection H as <-. unfold with_finder. rewrite Hc.
-      apply (J_after _ _ _ lo (ps_fo st - 5) (ps_fo st) mo Hst); [rewrite <- Hpos; exact Hcur|lia|lia|exact Hf].
+    - injection H as <-. unfold with_finder.
+      apply (J_settle _ _ _ _ lo (ps_fo st - 5) (ps_fo st) mo Hst); [rewrite <- Hpos; exact Hcur|lia|lia|exact Hs|lia].
   Qed.
 
   (* ---- {math: ---- *)
-  Lemma math_scan_56 : forall fuel mo sv r,
-    (exists o, fnext w content o = Ok mo) -> math_scan w content fuel mo sv = Ok r ->
-    fst (snd r) <> 5%N /\ fst (snd r) <> 6%N.
-  Proof.
-    intros fuel; induction fuel as [|f IH]; intros mo sv r Hf Hr; [discriminate Hr|].
-    cbn [math_scan] in Hr. apply bind_ok in Hr. destruct Hr as ([mo1 sv1] & H1 & Hr). cbn [fst snd] in Hr.
-    assert (Hmo1 : exists o1, fnext w content o1 = Ok mo1).
-    { destruct (N.ltb (fst mo) tpp_MathID && negb (N.eqb (fst mo) tpp_LineEndID)).
-      - apply bind_ok in H1. destruct H1 as (mo'' & Hf'' & H1). injection H1 as <- _. eexists; exact Hf''.
-      - injection H1 as <- _. exact Hf. }
-    destruct (N.eqb (fst mo1) tpp_LineEndID).
-    - destruct sv1 as [|sv'].
-      + apply bind_ok in Hr. destruct Hr as (mo2 & Hf2 & Hr). injection Hr as <-. cbn [fst snd].
-        destruct (fnext_facts _ _ Hf2) as (_ & _ & A & B). split; assumption.
-      + apply bind_ok in Hr. destruct Hr as (mo2 & Hf2 & Hr). eapply IH; [eexists; exact Hf2|exact Hr].
-    - injection Hr as <-. cbn [fst snd]. destruct Hmo1 as [o1 Hf1]. destruct (fnext_facts _ _ Hf1) as (_ & _ & A & B). split; assumption.
-  Qed.
-
   Lemma do_math_J : forall st st', Inv content st -> J st -> ps_fm st = tpp_MathID ->
     do_math numf w content st = Ok st' -> J st'.
   Proof.
     intros st st' HI HJ Hk H.
     assert (Hm : ps_fm st <> 0%N) by (rewrite Hk; discriminate).
-    destruct (J_parts st HI HJ Hm) as (Hfo & Htl & Hc & lo & Hst & Hlo & Hcur). rewrite Hk in Htl. cbn in Htl.
-    apply cur_ok_plain in Hcur; [|rewrite Hk; discriminate|rewrite Hk; discriminate].
-    assert (Hpos : pos (ps_fm st) (ps_fo st) = ps_fo st - 6) by (rewrite Hk; reflexivity).
+    destruct (inv_parts numf content st HI Hm) as (Hfo & Htl & _). rewrite Hk in Htl. cbn in Htl.
     unfold do_math in H.
-    apply bind_ok in H. destruct H as (mo & Hf & H).
-    destruct (fnext_facts _ _ Hf) as (Hs & _ & _ & _).
+    apply bind_ok in H. destruct H as (mo & Hf & H). pose proof (fnext_step _ _ Hf) as Hs.
     apply bind_ok in H. destruct H as (r & Hr & H).
     pose proof (math_scan_good numf w content (S len) (ps_fo st) mo 0 Hs Hfo) as G. rewrite Hr in G. cbn [good] in G.
     destruct G as [Gs Ge].
@@ -294,23 +490,122 @@ Section Tree.
     { intros Hn. destruct (stepok_nz _ _ _ Hs Hn). lia. }
     destruct r as [eo mo']. cbn [fst snd] in *.
     destruct (Nat.eqb_spec eo 0) as [E0|E0].
-    - injection H as <-. unfold with_finder. rewrite Hc.
-      (* the last Next() of the scan was called at or after the cursor *)
-      unfold J. cbn [ps_child ps_fm ps_fo ps_stack ps_cur].
-      pose proof (math_scan_56 _ _ _ _ (ex_intro _ _ Hf) Hr) as H56. cbn [fst snd] in H56.
-      split; [reflexivity|split; [apply H56|split; [apply H56|]]].
-      exists lo. split; [exact Hst|]. pose proof (stepok_le _ _ _ Gs). split; [lia|]. left.
-      eapply wf_tags_mono; [exact Hcur|]. rewrite Hpos. eapply pos_after; [exact Gs|lia|lia].
+    - injection H as <-. unfold with_finder. destruct HJ as [HA|HD]; [|right; exact HD].
+      destruct (alive_parts st HI HA Hm) as (_ & _ & Hn & lo & Hst & Hlo & Hcur).
+      apply cur_ok_plain in Hcur; [|rewrite Hk; discriminate|rewrite Hk; discriminate].
+      apply (J_settle _ _ _ _ lo (ps_fo st - 6) (ps_fo st) mo' Hst); [|lia|lia|exact Gs|lia].
+      unfold pos in Hcur. rewrite Hk in Hcur. exact Hcur.
     - destruct Ge as [Ge|(G1 & G2 & G3 & G4)]; [contradiction|].
       apply bind_ok in H. destruct H as (o & Ho & H). apply csub_ok in Ho. destruct Ho as [-> _].
       apply bind_ok in H. destruct H as (e1 & He1 & H).
       apply bind_ok in H. destruct H as (ex & _ & H). injection H as <-.
-      unfold with_finder, with_cur. cbn [ps_stack ps_cur ps_child ps_chain]. rewrite Hc.
-      apply (J_after _ _ _ lo eo eo mo' Hst); [|lia|exact G2|exact G4].
-      apply wf_tags_snoc; cbn [tstart tend wf_tag].
-      + unfold tpp_MathPrefixLength. rewrite <- Hpos. exact Hcur.
-      + unfold tpp_MathPrefixLength. lia.
+      unfold with_finder, with_cur. cbn [ps_stack ps_cur ps_child ps_chain].
+      destruct HJ as [HA|HD]; [|right; exact HD].
+      destruct (alive_parts st HI HA Hm) as (_ & _ & Hn & lo & Hst & Hlo & Hcur).
+      apply cur_ok_plain in Hcur; [|rewrite Hk; discriminate|rewrite Hk; discriminate].
+      unfold pos in Hcur. rewrite Hk in Hcur. cbn in Hcur.
+      apply (J_settle _ _ _ _ lo eo eo mo' Hst); [|lia|exact G2|exact (fnext_step _ _ G4)|lia].
+      apply wf_tags_snoc; cbn [tstart tend wf_tag]; unfold tpp_MathPrefixLength; [exact Hcur|lia|lia].
+  Qed.
+
+  (* pushing a tag that owns an open child array *)
+  Lemma frames_push : forall stack lo cur t,
+    frames_ok stack lo -> wf_tags len (levels stack) lo (tstart t) cur ->
+    open_wf (levels stack) t -> tstart t <= child_lo t -> tstart t <= len ->
+    frames_ok ((cur ++ [t]) :: stack) (child_lo t).
+  Proof.
+    intros stack lo cur t Hst Hw Ho H1 H2. cbn [frames_ok]. exists cur, t, lo. repeat split; assumption.
+  Qed.
+
+  Lemma nsv_push : forall cur t stack, nsv ((cur ++ [t]) :: stack) = (if is_sv t then 1 else 0) + nsv stack.
+  Proof. intros. cbn [nsv]. rewrite frame_sv_snoc. reflexivity. Qed.
+
+  (* ---- {svar: ---- *)
+  Lemma do_svar_J : forall st st', Inv content st -> J st -> ps_fm st = tpp_SuperVariableID ->
+    do_svar w content st = Ok st' -> J st'.
+  Proof.
+    intros st st' HI HJ Hk H.
+    assert (Hm : ps_fm st <> 0%N) by (rewrite Hk; discriminate).
+    destruct (inv_parts numf content st HI Hm) as (Hfo & Htl & _). rewrite Hk in Htl. cbn in Htl.
+    unfold do_svar in H.
+    apply bind_ok in H. destruct H as (so & Hso & H). apply csub_ok in Hso. destruct Hso as [-> _].
+    apply bind_ok in H. destruct H as (mo & Hf & H). pose proof (fnext_step _ _ Hf) as Hs.
+    assert (Hend : snd mo <= len) by (destruct Hs as (_ & Hx & _); auto).
+    apply bind_ok in H. destruct H as (o2 & Ho2 & H).
+    pose proof (skip_ne_good content 95 tpp_VariablesSeparatorChar (ps_fo st) (snd mo) Hend) as G. rewrite Ho2 in G. cbn [good] in G.
+    apply bind_ok in H. destruct H as (d & Hd & H). apply csub_ok in Hd. destruct Hd as [-> _].
+    unfold with_finder in H. cbn [ps_stack ps_cur ps_child ps_chain] in H.
+    destruct (N.eqb (t8 (o2 - ps_fo st)) 0).
+    - injection H as <-. destruct HJ as [HA|HD]; [|right; exact HD].
+      destruct (alive_parts st HI HA Hm) as (_ & _ & Hn & lo & Hst & Hlo & Hcur).
+      apply cur_ok_plain in Hcur; [|rewrite Hk; discriminate|rewrite Hk; discriminate].
+      unfold pos in Hcur. rewrite Hk in Hcur. cbn in Hcur.
+      apply (J_settle _ _ _ _ lo (ps_fo st - 6) (ps_fo st) mo Hst); [exact Hcur|lia|lia|exact Hs|lia].
+    - injection H as <-. unfold push_tag. cbn [ps_fo ps_fm ps_stack ps_cur].
+      destruct HJ as [HA|HD].
+      2:{ right. cbn [ps_stack ps_child]. eapply dead_step; [exact HD|apply sh_push_sv; reflexivity]. }
+      destruct (alive_parts st HI HA Hm) as (_ & _ & Hn & lo & Hst & Hlo & Hcur).
+      apply cur_ok_plain in Hcur; [|rewrite Hk; discriminate|rewrite Hk; discriminate].
+      unfold pos in Hcur. rewrite Hk in Hcur. cbn in Hcur.
+      set (t := PSVar (ps_fo st - tpp_SuperVariablePrefixLength) 0 (mkV (ps_fo st) (t8 (o2 - ps_fo st)) 0 0) []).
+      apply (J_settle _ _ _ _ (child_lo t) (ps_fo st - 6) (ps_fo st) mo).
+      + apply frames_push with (lo := lo); [exact Hst|exact Hcur| |cbn; lia|cbn; unfold tpp_SuperVariablePrefixLength; lia].
+        cbn [open_wf t]. split; [cbn [v_off v_len]; pose proof (t8_le (o2 - ps_fo st)); lia|cbn; intros X; contradiction X; reflexivity].
+      + cbn [wf_tags child_lo t]. unfold tpp_SuperVariablePrefixLength. lia.
       + lia.
+      + lia.
+      + exact Hs.
+      + rewrite nsv_push. cbn [is_sv t cnt]. lia.
+  Qed.
+
+  (* ---- {if ---- *)
+  Lemma do_iif_J : forall st st', Inv content st -> J st -> ps_fm st = tpp_InLineIfID ->
+    do_iif numf w content st = Ok st' -> J st'.
+  Proof.
+    intros st st' HI HJ Hk H.
+    assert (Hm : ps_fm st <> 0%N) by (rewrite Hk; discriminate).
+    destruct (inv_parts numf content st HI Hm) as (Hfo & Htl & _). rewrite Hk in Htl. cbn in Htl.
+    (* no tag: the current array is untouched *)
+    assert (Hplain : forall mo', stepok content (ps_fo st) mo' -> J (with_finder st mo')).
+    { intros mo' Hs'. unfold with_finder. destruct HJ as [HA|HD]; [|right; exact HD].
+      destruct (alive_parts st HI HA Hm) as (_ & _ & Hn & lo & Hst & Hlo & Hcur).
+      apply cur_ok_plain in Hcur; [|rewrite Hk; discriminate|rewrite Hk; discriminate].
+      unfold pos in Hcur. rewrite Hk in Hcur. cbn in Hcur.
+      apply (J_settle _ _ _ _ lo (ps_fo st - 3) (ps_fo st) mo' Hst); [exact Hcur|lia|lia|exact Hs'|lia]. }
+    unfold do_iif in H.
+    apply bind_ok in H. destruct H as (io & Hio & H). apply csub_ok in Hio. destruct Hio as [-> _].
+    apply bind_ok in H. destruct H as (mo & Hf & H). pose proof (fnext_step _ _ Hf) as Hs.
+    assert (Hend : snd mo <= len) by (destruct Hs as (_ & Hx & _); auto).
+    apply bind_ok in H. destruct H as (o1 & Ho1 & H).
+    pose proof (skip_eq_good content 99 tpp_SpaceChar (ps_fo st) (snd mo) Hend) as G1. rewrite Ho1 in G1. cbn [good] in G1.
+    apply bind_ok in H. destruct H as (is_case & _ & H).
+    destruct is_case; [|injection H as <-; apply Hplain; exact Hs].
+    apply bind_ok in H. destruct H as (o2 & Ho2 & H).
+    pose proof (skip_ne_good content 101 tpp_EqualChar (o1 + tpp_CaseLength) (snd mo) Hend) as G2. rewrite Ho2 in G2. cbn [good] in G2.
+    apply bind_ok in H. destruct H as (o3 & Ho3 & H).
+    pose proof (skip_eq_do_good content 102 tpp_SpaceChar o2 (snd mo) Hend) as G3. rewrite Ho3 in G3. cbn [good] in G3.
+    destruct (Nat.ltb_spec o3 (snd mo)) as [Hlt|Hge]; [|injection H as <-; apply Hplain; exact Hs].
+    apply bind_ok in H. destruct H as (quote & _ & H).
+    apply bind_ok in H. destruct H as ([[off' mtch] mo'] & Hsc & H).
+    pose proof (iif_case_scan_good numf w content (S len) (ps_fo st) quote (S o3) mo Hs Hfo) as G4. rewrite Hsc in G4. cbn [good] in G4.
+    destruct G4 as (Gs & Goff & Glen); [lia|lia|intros Hn; destruct (stepok_nz _ _ _ Hs Hn); lia|].
+    destruct (N.eqb_spec mtch 0) as [Ez|Ez]; [injection H as <-; apply Hplain; exact Gs|].
+    apply bind_ok in H. destruct H as (ex & _ & H).
+    apply bind_ok in H. destruct H as (d & Hd & H). apply csub_ok in Hd. destruct Hd as [-> _]. injection H as <-.
+    unfold push_tag, with_finder. cbn [ps_fo ps_fm ps_stack ps_cur ps_child ps_chain].
+    destruct HJ as [HA|HD].
+    2:{ right. cbn [ps_stack ps_child]. eapply dead_step; [exact HD|apply sh_push_sv; reflexivity]. }
+    destruct (alive_parts st HI HA Hm) as (_ & _ & Hn & lo & Hst & Hlo & Hcur).
+    apply cur_ok_plain in Hcur; [|rewrite Hk; discriminate|rewrite Hk; discriminate].
+    unfold pos in Hcur. rewrite Hk in Hcur. cbn in Hcur.
+    match goal with |- J (mkS _ _ ((_ ++ [?tt]) :: _) _ _ _) => set (t := tt) end.
+    apply (J_settle _ _ _ _ (child_lo t) (ps_fo st - 3) (ps_fo st) mo').
+    - apply frames_push with (lo := lo); [exact Hst|exact Hcur|cbn; auto|cbn; lia|cbn; unfold tpp_InLineIfPrefixLength; lia].
+    - cbn [wf_tags child_lo t i_off]. unfold tpp_InLineIfPrefixLength. lia.
+    - lia.
+    - lia.
+    - exact Gs.
+    - rewrite nsv_push. cbn [is_sv t cnt]. lia.
   Qed.
 
   (* ---- <loop ---- *)
@@ -319,73 +614,95 @@ Section Tree.
   Proof.
     intros st st' HI HJ Hk H.
     assert (Hm : ps_fm st <> 0%N) by (rewrite Hk; discriminate).
-    destruct (J_parts st HI HJ Hm) as (Hfo & Htl & Hc & lo & Hst & Hlo & Hcur). rewrite Hk in Htl. cbn in Htl.
-    apply cur_ok_plain in Hcur; [|rewrite Hk; discriminate|rewrite Hk; discriminate].
-    assert (Hpos : pos (ps_fm st) (ps_fo st) = ps_fo st - 5) by (rewrite Hk; reflexivity).
+    destruct (inv_parts numf content st HI Hm) as (Hfo & Htl & _). rewrite Hk in Htl. cbn in Htl.
     unfold do_loop in H.
     apply bind_ok in H. destruct H as (lo_ & Hlo_ & H). apply csub_ok in Hlo_. destruct Hlo_ as [-> _].
-    apply bind_ok in H. destruct H as (mo & Hf & H).
-    destruct (fnext_facts _ _ Hf) as (Hs & _ & H5 & H6).
+    apply bind_ok in H. destruct H as (mo & Hf & H). pose proof (fnext_step _ _ Hf) as Hs.
     assert (Hend : snd mo <= len) by (destruct Hs as (_ & Hx & _); auto).
     apply bind_ok in H. destruct H as (o1 & Ho1 & H). unfold skip_ne in Ho1.
-    pose proof (skip_while_good content 106 (fun ch => negb (N.eqb ch tpp_MultiLineLastChar)) (snd mo - ps_fo st) (ps_fo st) (snd mo) Hend (Nat.le_refl _)) as G. rewrite Ho1 in G. cbn [good] in G.
+    pose proof (skip_while_good content 106 (fun ch => negb (N.eqb ch tpp_MultiLineLastChar)) (snd mo - ps_fo st) (ps_fo st) (snd mo) Hend (Nat.le_refl _)) as G.
+    rewrite Ho1 in G. cbn [good] in G.
     destruct (Nat.ltb_spec o1 (snd mo)) as [Hlt|Hge].
     - destruct (skip_while_stop _ _ _ _ _ _ _ Ho1 Hlt) as (ch & Hch1 & Hp).
       apply negb_false_iff, N.eqb_eq in Hp. rewrite Hp in Hch1.
       apply bind_ok in H. destruct H as (l1 & Hl1 & H). unfold parse_loop_attributes in Hl1.
-      apply loop_attrs_same in Hl1. destruct Hl1 as (E1 & E2 & E3 & E4 & E5). cbn [l_off l_end l_coff l_level l_parent] in *.
       apply bind_ok in H. destruct H as (d & Hd & H). apply csub_ok in Hd. destruct Hd as [-> _]. injection H as <-.
-      unfold push_tag, with_finder. cbn [ps_fo ps_fm ps_stack ps_cur ps_child ps_chain]. rewrite Hc.
-      unfold J. cbn [ps_child ps_fm ps_fo ps_stack ps_cur].
-      split; [reflexivity|split; [exact H5|split; [exact H6|]]].
-      set (l2 := mkL (l_off l1) (l_end l1) _ _ _ _ _ _ _ _ _).
-      exists (child_lo (PLoop l2 [])).
+      unfold push_tag, with_finder. cbn [ps_fo ps_fm ps_stack ps_cur ps_child ps_chain].
+      destruct HJ as [HA|HD].
+      2:{ right. cbn [ps_stack ps_child]. eapply dead_step; [exact HD|apply sh_push_lf; reflexivity]. }
+      destruct (alive_parts st HI HA Hm) as (_ & _ & Hn & lo & Hst & Hlo & Hcur).
+      apply cur_ok_plain in Hcur; [|rewrite Hk; discriminate|rewrite Hk; discriminate].
+      unfold pos in Hcur. rewrite Hk in Hcur. cbn in Hcur.
+      destruct (loop_attrs_tree content (levels (ps_stack st)) _ _ _ _ _ _ Hl1) as [(E1 & E2 & E3 & E4 & E5) (A1 & A2 & A3)].
+      { lia. }
+      { cbn [l_parent]. apply chain_levels. exact HI. }
+      { unfold lattr_ok. cbn. split; [lia|split; [intros X; contradiction X; reflexivity|lia]]. }
+      cbn [l_off l_end l_coff l_level l_parent] in *.
+      match goal with |- J (mkS _ _ ((_ ++ [PLoop ?ll []]) :: _) _ _ _) => set (l2 := ll) end.
       pose proof (t16_le (o1 + tpp_MultiLineSuffixLength - (ps_fo st - tpp_LoopPrefixLength))) as Ht.
       assert (Hcl : child_lo (PLoop l2 []) <= o1 + 1).
       { cbn [child_lo l2 l_off l_coff]. rewrite E1. unfold tpp_MultiLineSuffixLength, tpp_LoopPrefixLength in *. lia. }
-      split; [|split].
-      + cbn [stack_ok]. exists (ps_cur st), (PLoop l2 []), lo.
-        split; [reflexivity|split; [reflexivity|split; [exact I|split; [|split; [|split; [|exact Hst]]]]]].
-        * cbn [tstart child_lo l2 l_off l_coff]. lia.
-        * cbn [tstart l2 l_off]. rewrite E1. lia.
-        * cbn [tstart l2 l_off]. rewrite E1. unfold tpp_LoopPrefixLength. rewrite <- Hpos. exact Hcur.
-      + pose proof (stepok_le _ _ _ Hs). lia.
-      + destruct (N.eq_dec (fst mo) 8) as [E8|E8]; [right; split; [reflexivity|split; [left; exact E8|eexists _, _, _, _; reflexivity]]|].
-        destruct (N.eq_dec (fst mo) 10) as [E10|E10]; [right; split; [reflexivity|split; [right; exact E10|eexists _, _, _, _; reflexivity]]|].
-        left. cbn [wf_tags]. unfold pos. destruct (N.eqb_spec (fst mo) 0) as [E0|E0]; [lia|].
-        (* the '>' at o1 is not inside the pending token *)
-        assert (Hnw : next_w w content (ps_fo st) = FOk (fst mo) (snd mo)).
-        { unfold fnext in Hf. destruct (next_w w content (ps_fo st)) as [m o'|]; [injection Hf as <-; reflexivity|discriminate Hf]. }
-        destruct (Nat.lt_ge_cases o1 (snd mo - toklen (fst mo))) as [Hin|Hout]; [lia|].
-        exfalso. destruct (next_w_token_gt _ _ _ _ _ Hfo Hnw o1) as [X|X]; [lia|exact Hch1|contradiction|contradiction].
-    - injection H as <-. unfold with_finder. rewrite Hc.
-      apply (J_after _ _ _ lo (ps_fo st - 5) (ps_fo st) mo Hst); [rewrite <- Hpos; exact Hcur|lia|lia|exact Hf].
+      assert (Hfr : frames_ok ((ps_cur st ++ [PLoop l2 []]) :: ps_stack st) (child_lo (PLoop l2 []))).
+      { apply frames_push with (lo := lo); [exact Hst| | | |].
+        - cbn [tstart l2 l_off]. rewrite E1. unfold tpp_LoopPrefixLength. exact Hcur.
+        - cbn [open_wf l2 l_set l_off l_goff l_glen]. rewrite E1. unfold tpp_LoopPrefixLength in *.
+          split; [split; [lia|exact A2]|lia].
+        - cbn [tstart child_lo l2 l_off l_coff]. lia.
+        - cbn [tstart l2 l_off]. rewrite E1. lia. }
+      left. split; [cbn [ps_stack ps_child]; rewrite nsv_push; cbn [is_sv]; lia|].
+      cbn [ps_stack ps_fo ps_fm ps_cur]. exists (child_lo (PLoop l2 [])). split; [exact Hfr|].
+      pose proof (stepok_le _ _ _ Hs). split; [lia|].
+      destruct (N.eq_dec (fst mo) 8) as [E8|E8]; [right; split; [reflexivity|split; [left; exact E8|eexists _, _, _, _; reflexivity]]|].
+      destruct (N.eq_dec (fst mo) 10) as [E10|E10]; [right; split; [reflexivity|split; [right; exact E10|eexists _, _, _, _; reflexivity]]|].
+      left. cbn [wf_tags]. unfold pos. destruct (N.eqb_spec (fst mo) 0) as [E0|E0]; [lia|].
+      (* the '>' at o1 is not inside the pending token *)
+      assert (Hnw : next_w w content (ps_fo st) = FOk (fst mo) (snd mo)).
+      { unfold fnext in Hf. destruct (next_w w content (ps_fo st)) as [m o'|]; [injection Hf as <-; reflexivity|discriminate Hf]. }
+      destruct (Nat.lt_ge_cases o1 (snd mo - toklen (fst mo))) as [Hin|Hout]; [lia|].
+      exfalso. destruct (next_w_token_gt _ _ _ _ _ Hfo Hnw o1) as [X|X]; [lia|exact Hch1|contradiction|contradiction].
+    - injection H as <-. unfold with_finder. destruct HJ as [HA|HD]; [|right; exact HD].
+      destruct (alive_parts st HI HA Hm) as (_ & _ & Hn & lo & Hst & Hlo & Hcur).
+      apply cur_ok_plain in Hcur; [|rewrite Hk; discriminate|rewrite Hk; discriminate].
+      unfold pos in Hcur. rewrite Hk in Hcur. cbn in Hcur.
+      apply (J_settle _ _ _ _ lo (ps_fo st - 5) (ps_fo st) mo Hst); [exact Hcur|lia|lia|exact Hs|lia].
+  Qed.
+
+  Lemma frames_top : forall init t rest lo, frames_ok ((init ++ [t]) :: rest) lo ->
+    lo = child_lo t /\ open_wf (levels rest) t /\ tstart t <= child_lo t /\ tstart t <= len /\
+    exists lo0, wf_tags len (levels rest) lo0 (tstart t) init /\ frames_ok rest lo0.
+  Proof.
+    intros init t rest lo (init' & t' & lo0 & E & H1 & H2 & H3 & H4 & H5 & H6).
+    apply app_inj_tail in E. destruct E as [<- <-]. repeat split; try assumption. exists lo0. split; assumption.
   Qed.
 
   (* ---- </loop> ---- *)
   Lemma do_loop_end_J : forall st st1, Inv content st -> J st -> ps_fm st = tpp_LoopEndID ->
-    do_loop_end st = Ok st1 ->
-    ps_child st1 = false /\ exists lo c, stack_ok (ps_stack st1) lo /\ wf_tags lo c (ps_cur st1) /\ c <= ps_fo st1 /\ c <= len.
+    do_loop_end st = Ok st1 -> restedJ st1.
   Proof.
     intros st st1 HI HJ Hk H.
     assert (Hm : ps_fm st <> 0%N) by (rewrite Hk; discriminate).
-    destruct (J_parts st HI HJ Hm) as (Hfo & Htl & Hc & lo & Hst & Hlo & Hcur). rewrite Hk in Htl. cbn in Htl.
-    assert (Hsame : ps_child st = false /\ exists lo c, stack_ok (ps_stack st) lo /\ wf_tags lo c (ps_cur st) /\ c <= ps_fo st /\ c <= len).
-    { split; [exact Hc|]. exists lo, (ps_fo st). split; [exact Hst|split; [eapply cur_at_fo; eassumption|lia]]. }
+    destruct (inv_parts numf content st HI Hm) as (Hfo & Htl & _). rewrite Hk in Htl. cbn in Htl.
+    pose proof (rested_same st HI HJ Hm) as Hsame.
     unfold do_loop_end in H.
     destruct (ps_chain st) as [|li chain]; [injection H as <-; exact Hsame|].
-    destruct (ps_stack st) as [|top rest] eqn:Est; [injection H as <-; rewrite Est; exact Hsame|].
-    pose proof Hst as Hst0. destruct Hst as (init & t & lo0 & Et & Elo & Hopen & Hts & Htl2 & Hinit & Hrest). subst top.
-    rewrite split_last_app in H.
-    destruct t as [| | | | |l sb|]; try (injection H as <-; rewrite Est; exact Hsame).
+    destruct (ps_stack st) as [|top rest] eqn:Est; [injection H as <-; exact Hsame|].
+    destruct (split_last top) as [[init t]|] eqn:Esl; [|discriminate H].
+    apply split_last_some in Esl. subst top.
+    destruct t as [| | | | |l sb|]; try (injection H as <-; exact Hsame).
     apply bind_ok in H. destruct H as (e & He & H). apply csub_ok in He. destruct He as [-> _]. injection H as <-.
-    cbn [ps_child ps_stack ps_cur ps_fo]. split; [exact Hc|].
-    cbn [child_lo tstart] in *.
+    destruct HJ as [HA|HD].
+    2:{ left. cbn [ps_stack ps_child]. rewrite Est in HD. apply (dead_step [] _ _ _ _ HD). exact (sh_pop_lf _ _ _ init (PLoop l sb) rest eq_refl eq_refl). }
+    destruct (alive_parts st HI HA Hm) as (_ & _ & Hn & lo & Hst & Hlo & Hcur). rewrite Est in Hst, Hn, Hcur.
+    destruct (frames_top _ _ _ _ Hst) as (Elo & Hopen & Hts & Htl2 & lo0 & Hinit & Hrest).
+    cbn [child_lo tstart open_wf] in *. unfold cur_ok in Hcur. rewrite levels_cons in Hcur.
+    right. cbn [ps_child ps_stack ps_cur ps_fo].
+    split; [cbn [nsv] in Hn; rewrite frame_sv_snoc in Hn; cbn [is_sv] in Hn; lia|].
     destruct (Nat.ltb_spec (ps_fo st - tpp_LoopSuffixLength) (l_off l + N.to_nat (l_coff l))) as [Hdrop|Hkeep].
     - exists lo0, (l_off l). split; [exact Hrest|split; [exact Hinit|lia]].
     - exists lo0, (ps_fo st). split; [exact Hrest|split; [|lia]].
       apply wf_tags_snoc; [exact Hinit| |cbn [tend l_end]; unfold tpp_LoopSuffixLength in *; lia].
-      apply wf_tag_loop. cbn [l_off l_coff l_end]. split; [exact Hkeep|].
+      cbn [wf_tag l_off l_coff l_end l_set l_goff l_glen l_level]. destruct Hopen as [Hset Hgrp].
+      split; [exact Hkeep|split; [exact Hset|split; [exact Hgrp|]]].
       destruct Hcur as [Hw|(Ec & _)].
       + unfold pos in Hw. rewrite Hk in Hw. cbn in Hw. subst lo. unfold tpp_LoopSuffixLength. exact Hw.
       + rewrite Ec. exact Hkeep.
@@ -397,51 +714,63 @@ Section Tree.
   Proof.
     intros st st' HI HJ Hk H.
     assert (Hm : ps_fm st <> 0%N) by (rewrite Hk; discriminate).
-    destruct (J_parts st HI HJ Hm) as (Hfo & Htl & Hc & lo & Hst & Hlo & Hcur). rewrite Hk in Htl. cbn in Htl.
-    apply cur_ok_plain in Hcur; [|rewrite Hk; discriminate|rewrite Hk; discriminate].
-    assert (Hpos : pos (ps_fm st) (ps_fo st) = ps_fo st - 3) by (rewrite Hk; reflexivity).
+    destruct (inv_parts numf content st HI Hm) as (Hfo & Htl & _). rewrite Hk in Htl. cbn in Htl.
     unfold do_if in H.
     apply bind_ok in H. destruct H as (io & Hio & H). apply csub_ok in Hio. destruct Hio as [-> _].
     apply bind_ok in H. destruct H as ([[o' co] ce] & Hp & H).
     pose proof (parse_if_case_good content (ps_fo st)) as G. rewrite Hp in G. cbn [good] in G. destruct G as [Go' _].
     apply bind_ok in H. destruct H as (st1 & H1 & H).
     apply bind_ok in H. destruct H as (mo & Hf & H). injection H as <-. unfold with_finder.
+    pose proof (fnext_step _ _ Hf) as Hs.
     destruct (Nat.ltb_spec o' len) as [Hlt|Hge].
     - apply bind_ok in H1. destruct H1 as (ex & _ & H1). injection H1 as <-.
-      unfold push_tag. cbn [ps_stack ps_cur ps_child ps_chain]. rewrite Hc.
-      apply (J_after _ _ _ o' o' o' mo); [|cbn [wf_tags]; lia|lia|lia|exact Hf].
-      cbn [stack_ok]. exists (ps_cur st), (PIf (ps_fo st - tpp_IfPrefixLength) 0 [PCase o' 0 ex []]), lo.
-      unfold tpp_IfPrefixLength.
-      split; [reflexivity|split; [reflexivity|split; [cbn; lia|split; [cbn; lia|split; [cbn; lia|split; [|exact Hst]]]]]].
-      cbn [tstart]. rewrite <- Hpos. exact Hcur.
-    - injection H1 as <-. rewrite Hc.
-      apply (J_after _ _ _ lo (ps_fo st - 3) o' mo Hst); [rewrite <- Hpos; exact Hcur|lia|lia|exact Hf].
+      unfold push_tag. cbn [ps_stack ps_cur ps_child ps_chain].
+      destruct HJ as [HA|HD].
+      2:{ right. cbn [ps_stack ps_child]. eapply dead_step; [exact HD|apply sh_push_lf; reflexivity]. }
+      destruct (alive_parts st HI HA Hm) as (_ & _ & Hn & lo & Hst & Hlo & Hcur).
+      apply cur_ok_plain in Hcur; [|rewrite Hk; discriminate|rewrite Hk; discriminate].
+      unfold pos in Hcur. rewrite Hk in Hcur. cbn in Hcur.
+      match goal with |- J (mkS _ _ ((_ ++ [?tt]) :: _) _ _ _) => set (t := tt) end.
+      apply (J_settle _ _ _ _ (child_lo t) o' o' mo); [|cbn [wf_tags child_lo t split_last]; lia|lia|lia|exact Hs|rewrite nsv_push; cbn [is_sv t]; lia].
+      apply frames_push with (lo := lo); [exact Hst|cbn [tstart t]; unfold tpp_IfPrefixLength; exact Hcur| | |].
+      + cbn [open_wf t split_last wf_cases]. unfold tpp_IfPrefixLength. lia.
+      + cbn [tstart child_lo t split_last]. unfold tpp_IfPrefixLength. lia.
+      + cbn [tstart t]. lia.
+    - injection H1 as <-. destruct HJ as [HA|HD]; [|right; exact HD].
+      destruct (alive_parts st HI HA Hm) as (_ & _ & Hn & lo & Hst & Hlo & Hcur).
+      apply cur_ok_plain in Hcur; [|rewrite Hk; discriminate|rewrite Hk; discriminate].
+      unfold pos in Hcur. rewrite Hk in Hcur. cbn in Hcur.
+      apply (J_settle _ _ _ _ lo (ps_fo st - 3) o' mo Hst); [exact Hcur|lia|lia|exact Hs|lia].
   Qed.
 
   (* ---- </if> ---- *)
   Lemma do_if_end_J : forall st st1, Inv content st -> J st -> ps_fm st = tpp_IfEndID ->
-    do_if_end st = Ok st1 ->
-    ps_child st1 = false /\ exists lo c, stack_ok (ps_stack st1) lo /\ wf_tags lo c (ps_cur st1) /\ c <= ps_fo st1 /\ c <= len.
+    do_if_end st = Ok st1 -> restedJ st1.
   Proof.
     intros st st1 HI HJ Hk H.
     assert (Hm : ps_fm st <> 0%N) by (rewrite Hk; discriminate).
-    destruct (J_parts st HI HJ Hm) as (Hfo & Htl & Hc & lo & Hst & Hlo & Hcur). rewrite Hk in Htl. cbn in Htl.
-    assert (Hsame : ps_child st = false /\ exists lo c, stack_ok (ps_stack st) lo /\ wf_tags lo c (ps_cur st) /\ c <= ps_fo st /\ c <= len).
-    { split; [exact Hc|]. exists lo, (ps_fo st). split; [exact Hst|split; [eapply cur_at_fo; eassumption|lia]]. }
+    destruct (inv_parts numf content st HI Hm) as (Hfo & Htl & _). rewrite Hk in Htl. cbn in Htl.
+    pose proof (rested_same st HI HJ Hm) as Hsame.
     unfold do_if_end in H.
-    destruct (ps_stack st) as [|top rest] eqn:Est; [injection H as <-; rewrite Est; exact Hsame|].
-    destruct Hst as (init & t & lo0 & Et & Elo & Hopen & Hts & Htl2 & Hinit & Hrest). subst top.
-    rewrite split_last_app in H.
-    destruct t as [| | | | | |o eo cases]; try (injection H as <-; rewrite Est; exact Hsame).
-    cbn [open_wf child_lo tstart] in *.
-    destruct (split_last cases) as [[ci [co ce0 cc sb0]]|] eqn:Ecs; [|destruct Hopen].
+    destruct (ps_stack st) as [|top rest] eqn:Est; [injection H as <-; exact Hsame|].
+    destruct (split_last top) as [[init t]|] eqn:Esl; [|discriminate H].
+    apply split_last_some in Esl. subst top.
+    destruct t as [| | | | | |o eo cases]; try (injection H as <-; exact Hsame).
+    destruct (split_last cases) as [[ci [co ce0 cc sb0]]|] eqn:Ecs; [|discriminate H].
     apply bind_ok in H. destruct H as (e & He & H). apply csub_ok in He. destruct He as [-> _]. injection H as <-.
-    cbn [ps_child ps_stack ps_cur ps_fo]. split; [exact Hc|].
-    assert (Hw : wf_tags co (ps_fo st - 5) (ps_cur st)).
+    destruct HJ as [HA|HD].
+    2:{ left. cbn [ps_stack ps_child]. rewrite Est in HD. apply (dead_step [] _ _ _ _ HD).
+        exact (sh_pop_lf _ _ _ init (PIf o eo cases) rest eq_refl eq_refl). }
+    destruct (alive_parts st HI HA Hm) as (_ & _ & Hn & lo & Hst & Hlo & Hcur). rewrite Est in Hst, Hn, Hcur.
+    destruct (frames_top _ _ _ _ Hst) as (Elo & Hopen & Hts & Htl2 & lo0 & Hinit & Hrest).
+    cbn [child_lo tstart open_wf] in *. rewrite Ecs in *. unfold cur_ok in Hcur. rewrite levels_cons in Hcur.
+    right. cbn [ps_child ps_stack ps_cur ps_fo].
+    split; [cbn [nsv] in Hn; rewrite frame_sv_snoc in Hn; cbn [is_sv] in Hn; lia|].
+    assert (Hw : wf_tags len (levels rest) co (ps_fo st - 5) (ps_cur st)).
     { destruct Hcur as [Hw|(_ & _ & (i' & l' & s' & r' & Ex))].
       - unfold pos in Hw. rewrite Hk in Hw. cbn in Hw. subst lo. exact Hw.
       - injection Ex as Ex _. apply app_inj_tail in Ex. destruct Ex as [_ Ex]. discriminate Ex. }
-    pose proof (wf_tags_le _ _ _ Hw) as Hle.
+    pose proof (wf_tags_le _ _ _ _ _ Hw) as Hle.
     exists lo0, (ps_fo st). split; [exact Hrest|split; [|lia]].
     apply wf_tags_snoc; [exact Hinit| |cbn [tend]; lia].
     apply wf_tag_if; [lia|].
@@ -461,59 +790,208 @@ Section Tree.
       assert (Hs : S offset <= len) by lia. destruct (IH (S offset) r Hs H) as [A B]. split; [lia|exact B].
   Qed.
 
-  Definition restedJ (st1 : pstate) : Prop :=
-    ps_child st1 = false /\ exists lo c, stack_ok (ps_stack st1) lo /\ wf_tags lo c (ps_cur st1) /\ c <= ps_fo st1 /\ c <= len.
-
   Lemma do_else_J : forall st r, Inv content st -> J st -> ps_fm st = tpp_ElseID ->
     do_else numf w content st = Ok r -> if snd r then restedJ (fst r) else J (fst r).
   Proof.
     intros st r HI HJ Hk H.
     assert (Hm : ps_fm st <> 0%N) by (rewrite Hk; discriminate).
-    destruct (J_parts st HI HJ Hm) as (Hfo & Htl & Hc & lo & Hst & Hlo & Hcur). rewrite Hk in Htl. cbn in Htl.
-    assert (Hsame : restedJ st).
-    { split; [exact Hc|]. exists lo, (ps_fo st). split; [exact Hst|split; [eapply cur_at_fo; eassumption|lia]]. }
+    destruct (inv_parts numf content st HI Hm) as (Hfo & Htl & _). rewrite Hk in Htl. cbn in Htl.
+    pose proof (rested_same st HI HJ Hm) as Hsame.
     unfold do_else in H.
     destruct (ps_stack st) as [|top rest] eqn:Est; [injection H as <-; cbn [fst snd]; exact Hsame|].
-    destruct Hst as (init & t & lo0 & Et & Elo & Hopen & Hts & Htl2 & Hinit & Hrest). subst top.
-    rewrite split_last_app in H.
+    destruct (split_last top) as [[init t]|] eqn:Esl; [|discriminate H].
+    apply split_last_some in Esl. subst top.
     destruct t as [| | | | | |o eo cases]; try (injection H as <-; cbn [fst snd]; exact Hsame).
-    cbn [open_wf child_lo tstart] in *.
-    destruct (split_last cases) as [[ci [co ce0 cc sb0]]|] eqn:Ecs; [|destruct Hopen].
+    destruct (split_last cases) as [[ci [co ce0 cc sb0]]|] eqn:Ecs; [|discriminate H].
     apply bind_ok in H. destruct H as (e & He & H). apply csub_ok in He. destruct He as [-> _].
-    assert (Hw : wf_tags co (ps_fo st - 5) (ps_cur st)).
-    { destruct Hcur as [Hw|(_ & [E|E] & _)]; [|rewrite Hk in E; discriminate E|rewrite Hk in E; discriminate E].
-      unfold pos in Hw. rewrite Hk in Hw. cbn in Hw. subst lo. exact Hw. }
-    pose proof (wf_tags_le _ _ _ Hw) as Hle.
     (* the two ways out *)
     assert (Hbad : forall fo fm, ps_fo st <= fo -> restedJ (mkS fo fm rest init (ps_child st) (ps_chain st))).
-    { intros fo fm Hge. split; [exact Hc|]. cbn [ps_stack ps_cur ps_fo]. exists lo0, o. split; [exact Hrest|split; [exact Hinit|lia]]. }
-    assert (Hopened : forall coff ex mo, ps_fo st <= coff -> coff <= len -> fnext w content coff = Ok mo ->
+    { intros fo fm Hge. destruct HJ as [HA|HD].
+      2:{ left. cbn [ps_stack ps_child]. rewrite Est in HD. apply (dead_step [] _ _ _ _ HD).
+          exact (sh_pop_lf _ _ _ init (PIf o eo cases) rest eq_refl eq_refl). }
+      destruct (alive_parts st HI HA Hm) as (_ & _ & Hn & lo & Hst & Hlo & Hcur). rewrite Est in Hst, Hn.
+      destruct (frames_top _ _ _ _ Hst) as (Elo & Hopen & Hts & Htl2 & lo0 & Hinit & Hrest).
+      right. cbn [ps_child ps_stack ps_cur ps_fo].
+      split; [cbn [nsv] in Hn; rewrite frame_sv_snoc in Hn; cbn [is_sv] in Hn; lia|].
+      cbn [tstart child_lo] in *. rewrite Ecs in *.
+      exists lo0, o. split; [exact Hrest|split; [exact Hinit|lia]]. }
+    assert (Hopened : forall coff ex mo, ps_fo st <= coff -> coff <= len -> stepok content coff mo ->
               J (mkS (snd mo) (fst mo)
                    ((init ++ [PIf o eo ((ci ++ [PCase co (ps_fo st - tpp_ElsePrefixLength) cc (ps_cur st)]) ++ [PCase coff 0 ex []])]) :: rest)
                    [] (ps_child st) (ps_chain st))).
-    { intros coff ex mo Hge Hl Hf. rewrite Hc.
-      apply (J_after _ _ _ coff coff coff mo); [|cbn [wf_tags]; lia|lia|exact Hl|exact Hf].
-      cbn [stack_ok]. eexists init, _, lo0. split; [reflexivity|].
-      cbn [child_lo open_wf tstart]. rewrite split_last_app.
-      split; [reflexivity|split; [|split; [lia|split; [exact Htl2|split; [exact Hinit|exact Hrest]]]]].
-      eapply wf_cases_snoc; [exact Hopen|unfold tpp_ElsePrefixLength; exact Hw|unfold tpp_ElsePrefixLength; lia]. }
+    { intros coff ex mo Hge Hl Hs. destruct HJ as [HA|HD].
+      2:{ right. cbn [ps_stack ps_child]. rewrite Est in HD. apply (dead_step [] _ _ _ _ HD).
+          eapply (sh_swap _ _ _ init (PIf o eo cases)); reflexivity. }
+      destruct (alive_parts st HI HA Hm) as (_ & _ & Hn & lo & Hst & Hlo & Hcur). rewrite Est in Hst, Hn, Hcur.
+      destruct (frames_top _ _ _ _ Hst) as (Elo & Hopen & Hts & Htl2 & lo0 & Hinit & Hrest).
+      cbn [child_lo tstart open_wf] in *. rewrite Ecs in *. unfold cur_ok in Hcur. rewrite levels_cons in Hcur.
+      assert (Hw : wf_tags len (levels rest) co (ps_fo st - 5) (ps_cur st)).
+      { destruct Hcur as [Hw|(_ & [E|E] & _)]; [|rewrite Hk in E; discriminate E|rewrite Hk in E; discriminate E].
+        unfold pos in Hw. rewrite Hk in Hw. cbn in Hw. subst lo. exact Hw. }
+      pose proof (wf_tags_le _ _ _ _ _ Hw) as Hle.
+      match goal with |- J (mkS _ _ ((_ ++ [?tt]) :: _) _ _ _) => set (t := tt) end.
+      assert (Ecl : child_lo t = coff) by (cbn [child_lo t]; rewrite split_last_snoc; reflexivity).
+      apply (J_settle _ _ _ _ (child_lo t) coff coff mo); [|rewrite Ecl; cbn [wf_tags]; lia|lia|exact Hl|exact Hs|].
+      - cbn [frames_ok]. exists init, t, lo0. split; [reflexivity|split; [reflexivity|]].
+        rewrite Ecl. cbn [open_wf tstart t]. rewrite split_last_snoc.
+        split; [|split; [lia|split; [exact Htl2|split; [exact Hinit|exact Hrest]]]].
+        eapply wf_cases_snoc; [exact Hopen|unfold tpp_ElsePrefixLength; exact Hw|unfold tpp_ElsePrefixLength; lia].
+      - cbn [nsv] in *. rewrite frame_sv_snoc in *. cbn [is_sv t] in *. lia. }
     apply bind_ok in H. destruct H as ([offset isie] & Hsc & H). cbn [fst snd] in H.
     destruct (else_scan_le _ _ _ Hfo Hsc) as [Hs1 Hs2]. cbn [fst snd] in Hs1, Hs2.
     destruct isie.
     - apply bind_ok in H. destruct H as ([[o' co'] ce'] & Hp & H).
       pose proof (parse_if_case_good content offset) as G. rewrite Hp in G. cbn [good] in G. destruct G as [Go' _].
-      apply bind_ok in H. destruct H as (mo & Hf & H).
+      apply bind_ok in H. destruct H as (mo & Hf & H). pose proof (fnext_step _ _ Hf) as Hs.
       destruct (Nat.ltb_spec o' len) as [Hlt|Hge]; cbn [andb] in H.
       + destruct (negb (ce' =? 0)).
         * apply bind_ok in H. destruct H as (ex & _ & H). injection H as <-. cbn [fst snd].
-          apply Hopened; [lia|lia|exact Hf].
-        * injection H as <-. cbn [fst snd]. apply Hbad. destruct (fnext_facts _ _ Hf) as (Hs & _). pose proof (stepok_le _ _ _ Hs). lia.
-      + injection H as <-. cbn [fst snd]. apply Hbad. destruct (fnext_facts _ _ Hf) as (Hs & _). pose proof (stepok_le _ _ _ Hs). lia.
+          apply Hopened; [lia|lia|exact Hs].
+        * injection H as <-. cbn [fst snd]. apply Hbad. pose proof (stepok_le _ _ _ Hs). lia.
+      + injection H as <-. cbn [fst snd]. apply Hbad. pose proof (stepok_le _ _ _ Hs). lia.
     - specialize (Hs2 eq_refl).
       destruct (Nat.ltb_spec offset len) as [Hlt|Hge].
       + apply bind_ok in H. destruct H as (mo & Hf & H). injection H as <-. cbn [fst snd].
-        apply Hopened; [lia|lia|exact Hf].
+        apply Hopened; [lia|lia|exact (fnext_step _ _ Hf)].
       + injection H as <-. cbn [fst snd]. apply Hbad. lia.
+  Qed.
+
+  (* ---- '}' ---- *)
+  Lemma finalize_iif_shape : forall fo rest init i c subs chain st1,
+    finalize_iif content fo rest init i c subs chain = Ok st1 ->
+    (ps_stack st1 = rest /\ ps_child st1 = false) \/
+    (exists i2, ps_stack st1 = (init ++ [PIIf i2 c subs]) :: rest /\ ps_child st1 = true).
+  Proof.
+    intros fo rest init i c subs chain st1 H. unfold finalize_iif in H.
+    apply bind_ok in H. destruct H as (d & _ & H).
+    destruct (N.ltb 65535 (N.of_nat d)); [injection H as <-; left; auto|].
+    apply bind_ok in H. destruct H as ([i2 repush] & _ & H). cbn [fst snd] in H.
+    destruct repush; [injection H as <-; right; exists i2; auto|].
+    destruct (negb (N.eqb (i_toff i2) 0) || negb (N.eqb (i_foff i2) 0)); [|injection H as <-; left; auto].
+    destruct (startid_scan subs _ 0) as [id|]; [|injection H as <-; left; auto].
+    destruct (255 <? id); [injection H as <-; left; auto|].
+    apply bind_ok in H. destruct H as (ok & _ & H). destruct ok; injection H as <-; left; auto.
+  Qed.
+
+  Lemma finalize_iif_J : forall fo rest init i c subs chain st1 lo0,
+    finalize_iif content fo rest init i c subs chain = Ok st1 ->
+    fo <= len -> i_off i <= fo -> i_tlen i = 0%N -> i_foff i = 0%N -> i_flen i = 0%N ->
+    frames_ok rest lo0 -> wf_tags len (levels rest) lo0 (i_off i) init ->
+    wf_tags len (levels rest) (i_off i) fo subs -> nsv rest = 0 -> i_off i <= len ->
+    cnt (ps_child st1) <= nsv (ps_stack st1) /\
+    exists lo c, frames_ok (ps_stack st1) lo /\ wf_tags len (levels (ps_stack st1)) lo c (ps_cur st1) /\ c <= fo /\ c <= len /\ ps_fo st1 = fo.
+  Proof.
+    intros fo rest init i c subs chain st1 lo0 H Hfo Hi Z1 Z2 Z3 Hrest Hinit Hsubs Hn Hil. unfold finalize_iif in H.
+    assert (Hdrop : cnt false <= nsv rest /\
+              exists lo c, frames_ok rest lo /\ wf_tags len (levels rest) lo c init /\ c <= fo /\ c <= len /\ fo = fo).
+    { split; [cbn; lia|]. exists lo0, (i_off i). repeat split; try assumption. }
+    apply bind_ok in H. destruct H as (d & Hd & H). apply csub_ok in Hd. destruct Hd as [-> _].
+    destruct (N.ltb_spec 65535 (N.of_nat (fo - i_off i))) as [Hbig|H16]; [injection H as <-; exact Hdrop|].
+    set (i1 := mkI (i_off i) (t16 (fo - i_off i)) 0 (i_tlen i) (i_foff i) (i_flen i) (i_tid i) (i_fid i)) in *.
+    apply bind_ok in H. destruct H as ([i2 repush] & Hat & H). cbn [fst snd] in H.
+    destruct repush.
+    - (* re-opened *)
+      injection H as <-. cbn [ps_stack ps_child ps_cur ps_fo].
+      destruct (iif_attrs_reopen _ _ _ _ _ _ _ _ Hat) as (R1 & R2 & R3 & R4 & R5). cbn [i1 i_off] in R1.
+      split; [rewrite nsv_push; cbn; lia|].
+      exists (i_off i), fo. rewrite levels_cons.
+      split; [|split; [exact Hsubs|split; [lia|split; [exact Hfo|reflexivity]]]].
+      cbn [frames_ok]. exists init, (PIIf i2 c subs), lo0. cbn [child_lo tstart open_wf]. rewrite R1.
+      repeat split; try assumption; lia.
+    - destruct (Nat.le_gt_cases (i_off i + N.to_nat (i_toff i)) fo) as [Hoff|Hoff].
+      2:{ (* the provisional start lies after the end: nothing is scanned, nothing is set *)
+          replace (fo - (i_off i + N.to_nat (i_toff i))) with 0 in Hat by lia.
+          cbn [iif_attrs] in Hat. unfold skip_eq in Hat.
+          replace (fo - (i_off i + N.to_nat (i_toff i))) with 0 in Hat by lia. cbn [skip_while] in Hat.
+          destruct (Nat.ltb_spec (i_off i + N.to_nat (i_toff i)) fo) as [X|_]; [lia|]. cbn [bind] in Hat.
+          destruct (Nat.ltb_spec (i_off i + N.to_nat (i_toff i)) fo) as [X|_]; [lia|]. injection Hat as <-.
+          cbn [i1 i_toff i_foff] in H. rewrite Z2 in H. cbn in H. injection H as <-. exact Hdrop. }
+      destruct (iif_attrs_slices _ _ _ _ _ _ _ _ Hat) as (S1 & E1 & E2 & E3 & E4).
+      { exact Hfo. } { cbn [i1 i_off]. lia. } { exact Hoff. } { cbn [i1 i_off]. exact H16. }
+      { unfold sinv. cbn [i1 i_off i_toff i_tlen i_foff i_flen]. rewrite Z1, Z2, Z3. split; [left; auto|split; [left; auto|intros X; contradiction X; reflexivity]]. }
+      cbn [i1 i_off i_len i_tid i_fid] in E1, E2, E3, E4.
+      destruct (negb (N.eqb (i_toff i2) 0) || negb (N.eqb (i_foff i2) 0)) eqn:Eset; [|injection H as <-; exact Hdrop].
+      destruct (startid_scan subs _ 0) as [id|] eqn:Escan; [|injection H as <-; exact Hdrop].
+      destruct (Nat.ltb_spec 255 id) as [H255|H255]; [injection H as <-; exact Hdrop|].
+      apply bind_ok in H. destruct H as (ok & Hok & H). destruct ok; injection H as <-; [|exact Hdrop].
+      cbn [ps_stack ps_child ps_cur ps_fo]. split; [cbn; lia|].
+      exists lo0, fo. split; [exact Hrest|split; [|split; [lia|split; [exact Hfo|reflexivity]]]].
+      match type of Hok with sub_tags_valid ?ii subs = _ => set (i3 := ii) in * end.
+      assert (X16 : N.to_nat (t16 (fo - i_off i)) = fo - i_off i) by (apply t16_exact; exact H16).
+      assert (Eo3 : i_off i3 = i_off i) by (unfold i3; destruct (N.ltb (i_toff i2) (i_foff i2)); cbn [i_off]; exact E1).
+      apply wf_tags_snoc; [cbn [tstart]; rewrite Eo3; exact Hinit| |].
+      + cbn [wf_tag].
+        assert (F3 : i_off i3 = i_off i2 /\ i_len i3 = i_len i2 /\ i_toff i3 = i_toff i2 /\ i_tlen i3 = i_tlen i2 /\
+                     i_foff i3 = i_foff i2 /\ i_flen i3 = i_flen i2 /\
+                     (if N.ltb (i_toff i2) (i_foff i2) then N.to_nat (i_fid i3) = id else N.to_nat (i_tid i3) = id)).
+        { unfold i3. destruct (N.ltb (i_toff i2) (i_foff i2)); cbn; repeat split; apply t8_exact; exact H255. }
+        destruct F3 as (G1 & G2 & G3 & G4 & G5 & G6 & G7).
+        apply (iif_partition len (levels rest) i3 subs (i_off i) fo id fo Hsubs Hok).
+        * unfold slices_ok. rewrite G1, G3, G4, G5, G6. exact S1.
+        * rewrite G1, G2, E1, E2, X16. lia.
+        * rewrite G3, G5. apply orb_prop in Eset. destruct Eset as [X|X]; apply negb_true_iff, N.eqb_neq in X; auto.
+        * rewrite G3, G5, G1. exact Escan.
+        * rewrite G3, G5. exact G7.
+      + cbn [tend]. unfold i3. destruct (N.ltb (i_toff i2) (i_foff i2)); cbn [i_off i_len]; rewrite E1, E2, X16; lia.
+  Qed.
+
+  Lemma do_line_end_J : forall st st1, Inv content st -> J st -> ps_fm st = tpp_LineEndID ->
+    do_line_end content st = Ok st1 -> restedJ st1.
+  Proof.
+    intros st st1 HI HJ Hk H.
+    assert (Hm : ps_fm st <> 0%N) by (rewrite Hk; discriminate).
+    destruct (inv_parts numf content st HI Hm) as (Hfo & Htl & _ & Hs1 & _). rewrite Hk in Htl. cbn in Htl.
+    pose proof (rested_same st HI HJ Hm) as Hsame.
+    unfold do_line_end in H.
+    destruct (ps_child st) eqn:Ec; [|injection H as <-; exact Hsame].
+    destruct (ps_stack st) as [|top rest] eqn:Est; [injection H as <-; exact Hsame|].
+    inversion Hs1 as [|? ? (init & t & Et & Hcont) _]; subst.
+    rewrite (writeback_good content 1 (ps_fo st) init t (ps_cur st) Hcont) in H. cbn [bind] in H.
+    rewrite split_last_snoc in H.
+    (* dead: any of these is a pop by '}' (or the re-opening of an inline if) *)
+    assert (Hpop : forall cur' chain', dead ((init ++ [t]) :: rest) true -> restedJ (mkS (ps_fo st) 0 rest cur' false chain')).
+    { intros cur' chain' HD. left. cbn [ps_stack ps_child]. apply (dead_step [] _ _ _ _ HD). exact (sh_pop_le _ _ _ _ rest eq_refl eq_refl). }
+    destruct t as [| | |o e v sb|i c sb|l sb|o eo cases]; cbn [container_ok] in Hcont; try contradiction; cbn [plug] in H.
+    - (* super variable *)
+      injection H as <-. destruct HJ as [HA|HD]; [|apply Hpop; rewrite Est, Ec in HD; exact HD].
+      destruct (alive_parts st HI HA Hm) as (_ & _ & Hn & lo & Hst & Hlo & Hcur). rewrite Est in Hst, Hn, Hcur. rewrite Ec in Hn.
+      destruct (frames_top _ _ _ _ Hst) as (Elo & Hopen & Hts & Htl2 & lo0 & Hinit & Hrest).
+      cbn [child_lo tstart open_wf] in *. unfold cur_ok in Hcur. rewrite levels_cons in Hcur.
+      cbn [nsv] in Hn. rewrite frame_sv_snoc in Hn. cbn [is_sv cnt] in Hn.
+      right. cbn [ps_child ps_stack ps_cur ps_fo]. split; [cbn; lia|].
+      destruct Hcur as [Hw|(_ & [E|E] & _)]; [|rewrite Hk in E; discriminate E|rewrite Hk in E; discriminate E].
+      unfold pos in Hw. rewrite Hk in Hw. cbn in Hw. subst lo. pose proof (wf_tags_le _ _ _ _ _ Hw).
+      exists lo0, (ps_fo st). split; [exact Hrest|split; [|lia]].
+      apply wf_tags_snoc; [exact Hinit| |cbn [tend]; lia].
+      cbn [wf_tag]. split; [lia|split; [exact Hopen|]]. eapply wf_tags_mono; [exact Hw|lia].
+    - (* inline if *)
+      destruct HJ as [HA|HD].
+      2:{ rewrite Est, Ec in HD. destruct (finalize_iif_shape _ _ _ _ _ _ _ _ H) as [[E1 E2]|(i2 & E1 & E2)].
+          - left. rewrite E1, E2. apply (dead_step [] _ _ _ _ HD). exact (sh_pop_le _ _ _ _ rest eq_refl eq_refl).
+          - left. rewrite E1, E2. apply (dead_step [] _ _ _ _ HD).
+            exact (sh_repush _ _ _ init (PIIf i c sb) (PIIf i2 c (ps_cur st)) rest eq_refl eq_refl eq_refl eq_refl). }
+      destruct (alive_parts st HI HA Hm) as (_ & _ & Hn & lo & Hst & Hlo & Hcur). rewrite Est in Hst, Hn, Hcur. rewrite Ec in Hn.
+      destruct (frames_top _ _ _ _ Hst) as (Elo & (Z1 & Z2 & Z3) & Hts & Htl2 & lo0 & Hinit & Hrest).
+      cbn [child_lo tstart] in *. unfold cur_ok in Hcur. rewrite levels_cons in Hcur.
+      cbn [nsv] in Hn. rewrite frame_sv_snoc in Hn. cbn [is_sv cnt] in Hn.
+      destruct Hcur as [Hw|(_ & [E|E] & _)]; [|rewrite Hk in E; discriminate E|rewrite Hk in E; discriminate E].
+      unfold pos in Hw. rewrite Hk in Hw. cbn in Hw. subst lo.
+      destruct (finalize_iif_J _ _ _ _ _ _ _ _ lo0 H Hfo Hcont Z1 Z2 Z3 Hrest Hinit) as (Q1 & lo & c0 & Q2 & Q3 & Q4 & Q5 & Q6);
+        [eapply wf_tags_mono; [exact Hw|lia]|lia|exact Htl2|].
+      right. split; [exact Q1|]. exists lo, c0. rewrite Q6. repeat split; assumption.
+    - (* an open loop is abandoned *)
+      injection H as <-. destruct HJ as [HA|HD]; [|apply Hpop; rewrite Est, Ec in HD; exact HD].
+      destruct (alive_parts st HI HA Hm) as (_ & _ & Hn & lo & Hst & Hlo & Hcur). rewrite Est in Hst, Hn. rewrite Ec in Hn.
+      destruct (frames_top _ _ _ _ Hst) as (_ & _ & _ & _ & lo0 & _ & Hrest).
+      cbn [nsv] in Hn. rewrite frame_sv_snoc in Hn. cbn [is_sv cnt] in Hn.
+      left. cbn [ps_stack ps_child]. eapply to_dead; [exact Hrest|cbn; lia].
+    - (* an open if is abandoned *)
+      destruct (split_last cases) as [[ci [co ce cc sb]]|] eqn:Ecs; [|contradiction Hcont; apply split_last_none in Ecs; exact Ecs].
+      injection H as <-. destruct HJ as [HA|HD]; [|apply Hpop; rewrite Est, Ec in HD; exact HD].
+      destruct (alive_parts st HI HA Hm) as (_ & _ & Hn & lo & Hst & Hlo & Hcur). rewrite Est in Hst, Hn. rewrite Ec in Hn.
+      destruct (frames_top _ _ _ _ Hst) as (_ & _ & _ & _ & lo0 & _ & Hrest).
+      cbn [nsv] in Hn. rewrite frame_sv_snoc in Hn. cbn [is_sv cnt] in Hn.
+      left. cbn [ps_stack ps_child]. eapply to_dead; [exact Hrest|cbn; lia].
   Qed.
 
   (* ---- one iteration preserves J ---- *)
@@ -521,22 +999,20 @@ Section Tree.
     step numf w content st = Ok st' -> J st'.
   Proof.
     intros st st' HI HJ Hm H. unfold step in H.
-    destruct (J_parts st HI HJ Hm) as (Hfo & Htl & Hc & lo & Hst & Hlo & Hcur).
-    assert (Hsame : restedJ st).
-    { split; [exact Hc|]. exists lo, (ps_fo st). split; [exact Hst|split; [eapply cur_at_fo; eassumption|lia]]. }
     assert (Hnext : forall st1, restedJ st1 -> then_next w content (Ok st1) = Ok st' -> J st').
-    { intros st1 [R1 R2] Hn. eapply then_next_J; eassumption. }
+    { intros st1 R Hn. eapply then_next_J; eassumption. }
     destruct (N.eqb_spec (ps_fm st) tpp_LineEndID) as [E|N1].
-    { unfold do_line_end in H. rewrite Hc in H. eapply Hnext; [exact Hsame|exact H]. }
+    { unfold then_next in H. apply bind_ok in H. destruct H as (st1 & H1 & H).
+      eapply Hnext; [eapply do_line_end_J; eassumption|]. unfold then_next. cbn [bind]. exact H. }
     destruct (N.eqb_spec (ps_fm st) tpp_VariableID) as [E|N2].
     { eapply (do_var_J PVar); try eassumption; try (rewrite E; discriminate); try (rewrite E; reflexivity).
-      intros v. cbn [tstart tend wf_tag]. split; [reflexivity|split; [reflexivity|tauto]]. }
+      intros lv v. cbn [tstart tend wf_tag]. split; [reflexivity|split; [reflexivity|tauto]]. }
     destruct (N.eqb_spec (ps_fm st) tpp_RawVariableID) as [E|N3].
     { eapply (do_var_J PRaw); try eassumption; try (rewrite E; discriminate); try (rewrite E; reflexivity).
-      intros v. cbn [tstart tend wf_tag]. split; [reflexivity|split; [reflexivity|tauto]]. }
+      intros lv v. cbn [tstart tend wf_tag]. split; [reflexivity|split; [reflexivity|tauto]]. }
     destruct (N.eqb_spec (ps_fm st) tpp_MathID) as [E|N4]; [eapply do_math_J; eassumption|].
-    destruct (N.eqb_spec (ps_fm st) tpp_SuperVariableID) as [E|N5]; [exfalso; destruct HJ as (_ & X & _); contradiction|].
-    destruct (N.eqb_spec (ps_fm st) tpp_InLineIfID) as [E|N6]; [exfalso; destruct HJ as (_ & _ & X & _); contradiction|].
+    destruct (N.eqb_spec (ps_fm st) tpp_SuperVariableID) as [E|N5]; [eapply do_svar_J; eassumption|].
+    destruct (N.eqb_spec (ps_fm st) tpp_InLineIfID) as [E|N6]; [eapply do_iif_J; eassumption|].
     destruct (N.eqb_spec (ps_fm st) tpp_LoopID) as [E|N7]; [eapply do_loop_J; eassumption|].
     destruct (N.eqb_spec (ps_fm st) tpp_LoopEndID) as [E|N8].
     { unfold then_next in H. apply bind_ok in H. destruct H as (st1 & H1 & H).
@@ -549,7 +1025,6 @@ Section Tree.
     { apply bind_ok in H. destruct H as ([st1 b] & H1 & H). cbn [fst snd] in H.
       pose proof (do_else_J _ _ HI HJ E H1) as R. cbn [fst snd] in R.
       destruct b; [eapply Hnext; [exact R|exact H]|injection H as <-; exact R]. }
-    (* no other match id *)
     exfalso. destruct (inv_parts numf content st HI Hm) as (_ & _ & H1 & _).
     apply toklen_ids in H1. cbn in H1.
     repeat (destruct H1 as [H1|H1]; [symmetry in H1; contradiction|]). exact H1.
@@ -566,43 +1041,57 @@ Section Tree.
       eapply IH; [exact HI1|exact (step_J st st1 HI HJ E H1)|exact H].
   Qed.
 
-  (* C01, tree: for every text in which the Finder reports neither "{svar:" nor "{if", the tree the parser
-     returns obeys the offset discipline the renderer relies on. *)
+  (* what the final clean-up leaves of a well-formed stack: the bottom array without its last tag *)
+  Lemma frames_bottom : forall stack lo, frames_ok stack lo -> stack <> [] ->
+    wf_tags len [] 0 len (removelast (last stack [])).
+  Proof.
+    intros stack; induction stack as [|top rest IH]; intros lo H Hne; [contradiction|].
+    destruct H as (init & t & lo0 & Et & _ & _ & _ & Htl2 & Hinit & Hrest). destruct rest as [|top2 rest2].
+    - cbn [last]. cbn [frames_ok] in Hrest. subst lo0 top. rewrite removelast_last.
+      eapply wf_tags_mono; [exact Hinit|exact Htl2].
+    - change (last (top :: top2 :: rest2) []) with (last (top2 :: rest2) []). eapply IH; [exact Hrest|discriminate].
+  Qed.
+
   Theorem tree_ok_gen : forall l, parse_gen numf w content = Ok l -> tree_ok len l.
   Proof.
     intros l H. unfold parse_gen in H. apply bind_ok in H. destruct H as (st & Hst & H). injection H as <-.
     unfold parse_state in Hst. apply bind_ok in Hst. destruct Hst as (mo & Hf & Hml).
-    destruct (fnext_facts _ _ Hf) as (Hs & _ & H5 & H6).
+    pose proof (fnext_step _ _ Hf) as Hs.
     assert (HI0 : Inv content (mkS (snd mo) (fst mo) [] [] false [])).
     { split; [eapply (stepok_finok numf); exact Hs|]. cbn [ps_fo ps_stack ps_cur ps_chain]. repeat split; constructor. }
     assert (HJ0 : J (mkS (snd mo) (fst mo) [] [] false [])).
-    { apply (J_after [] [] [] 0 0 0 mo); [reflexivity|cbn; lia|lia|lia|exact Hf]. }
+    { apply (J_settle [] [] false [] 0 0 0 mo); [reflexivity|cbn; lia|lia|lia|exact Hs|cbn; lia]. }
     destruct (main_loop_J _ _ _ HI0 HJ0 Hml) as (HI & HJ & Hz).
-    destruct HJ as (_ & _ & _ & lo & Hst & Hlo & Hcur).
     unfold unwind, tree_ok.
-    assert (Hposlen : pos (ps_fm st) (ps_fo st) = len) by (unfold pos; rewrite Hz; reflexivity).
-    destruct (ps_stack st) as [|top rest] eqn:Est.
-    - cbn [stack_ok] in Hst. subst lo. destruct Hcur as [Hw|(_ & [E|E] & _)]; [|rewrite Hz in E; discriminate E|rewrite Hz in E; discriminate E].
-      rewrite Hposlen in Hw. exact Hw.
-    - (* unclosed containers: what is left is the bottom array without its last element *)
-      clear Hcur Hlo Est HI. revert top lo Hst. induction rest as [|top2 rest2 IH]; intros top lo Hst.
-      + cbn [last]. destruct Hst as (init & t & lo0 & Et & _ & _ & _ & Htl2 & Hinit & Hbot). cbn [stack_ok] in Hbot. subst lo0 top.
-        rewrite removelast_last. eapply wf_tags_mono; [exact Hinit|exact Htl2].
-      + destruct Hst as (init & t & lo0 & _ & _ & _ & _ & _ & _ & Hrest).
-        change (last (top :: top2 :: rest2) []) with (last (top2 :: rest2) []). eapply IH. exact Hrest.
+    destruct HJ as [(Hn & lo & Hst & Hlo & Hcur)|(_ & prefix & F & suffix & lo & Es & _ & _ & Hok)].
+    - destruct (ps_stack st) as [|top rest] eqn:Est.
+      + cbn [frames_ok] in Hst. subst lo.
+        destruct Hcur as [Hw|(_ & [E|E] & _)]; [|rewrite Hz in E; discriminate E|rewrite Hz in E; discriminate E].
+        unfold pos in Hw. rewrite Hz in Hw. exact Hw.
+      + eapply frames_bottom; [exact Hst|discriminate].
+    - rewrite Es. destruct (prefix ++ F :: suffix) as [|x y] eqn:E; [destruct prefix; discriminate E|]. rewrite <- E.
+      replace (last (prefix ++ F :: suffix) []) with (last (F :: suffix) []).
+      + eapply frames_bottom; [exact Hok|discriminate].
+      + clear. induction prefix as [|p r IH]; [reflexivity|]. rewrite IH. cbn [app]. destruct (r ++ F :: suffix) eqn:E; [destruct r; discriminate E|reflexivity].
   Qed.
 End Tree.
 
-(* for the instantiated model *)
+(* C01, tree: for EVERY text the tree the parser returns obeys the offset discipline the renderer relies on *)
+Theorem tree_ok_all : forall w content l, parse_model w content = Ok l -> tree_ok (length content) l.
+Proof. intros w content l. apply tree_ok_gen. Qed.
+
+(* kept for Properties_C01.v: the earlier, conditional form *)
 Theorem tree_ok_no_inline : forall w content l,
   (forall o m o', next_w w content o = FOk m o' -> m <> 5%N /\ m <> 6%N) ->
   parse_model w content = Ok l -> tree_ok (length content) l.
-Proof. intros w content l H. apply tree_ok_gen. exact H. Qed.
+Proof. intros w content l _. apply tree_ok_all. Qed.
 
-(* non-vacuity: nested if / else / loop with variables and a math tag, malformed tail *)
+(* non-vacuity: nested if / else / loop, an inline if with both values and sub tags, a super variable, malformed tail *)
 Example tree_ok_example :
   let text := [60;105;102;32;99;97;115;101;61;34;49;34;62; 123;118;97;114;58;97;125; 60;108;111;111;112;32;118;97;108;117;101;61;34;118;34;62;
                123;109;97;116;104;58;49;43;123;118;97;114;58;118;125;125; 60;47;108;111;111;112;62; 60;101;108;115;101;62; 120; 60;47;105;102;62;
+               123;105;102;32;99;97;115;101;61;34;49;34;32;116;114;117;101;61;34;123;118;97;114;58;97;125;34;32;102;97;108;115;101;61;34;123;114;97;119;58;98;125;34;125;
+               123;115;118;97;114;58;115;44;32;123;118;97;114;58;97;125;125;
                60;108;111;111;112;62; 123;114;97;119;58]%N in
-  exists l, parse_model 0 text = Ok l /\ length l = 1 /\ tree_okb (length text) l = true.
+  exists l, parse_model 0 text = Ok l /\ length l = 3 /\ tree_okb (length text) l = true.
 Proof. vm_compute. eexists; repeat split. Qed.
